@@ -5,7 +5,10 @@
    an input that deviates from "everything omitted" in at most two places (or is an all-valid corner).
 
    The table was transcribed ONCE, at the pinned commit, from the operator-facing contract and is frozen
-   here; it does not co-move with configs/validate.py:
+   here; it does not co-move with configs/validate.py.  Revision 2 follows the repaired contract (new
+   messages for the stage keys t1.radius_cap / t1.decay.* / t1.edge_type_mult / t2.tiers /
+   t2.exact_recent_days / t2.clusters_top_m / t2.residual_cap_per_turn / k_surface, "<path> must be a
+   finite number", "<section> must be a mapping", unknown keys below t1.decay, rule 9):
      [msg]  the validator's constraint messages ("t2.k_retrieval must be >= 1",
             "t4.novelty_cap_per_node must be in (0, 1]", "... must be >= 1 (or null)",
             "t4.weight_min/weight_max must satisfy weight_min < weight_max", "unknown key", ...)
@@ -21,6 +24,8 @@
      hl/lv/lx lower bound (present / value / open), hh/hv/hx upper bound (for lists hh=1: members restricted),
      nul "or null", soft (no message backs the type: deviations are unspecified, not rejected),
      ne non-empty required, hm a third valid value exists, al index of the canonical key this key is a legacy alias of,
+     st the type is checked without coercion ("must be an integer ...", "must be a number ...", "must be a mapping of ..."),
+     cap the type check enforces an (unprinted) implementation ceiling: the huge class is rejected,
      hd/d default (present / value), mn mx md the valid-min / valid-max / valid-mid values
      (enums: 1000 * position of the value in the enumeration; str/list/map: 1000 = "a valid value").
    Sections: n name, parent, free (1: key names unrestricted, 2: unrestricted but must be strings),
@@ -43,231 +48,232 @@ CONSTANTS Singles,     \* BOOLEAN: enumerate all single-fault vectors
           NCorners     \* number of all-valid corner vectors (1 all-min, 2 all-max, 3 all-mid, 4.. mixes)
 
 FT == <<
-  [n |-> "version", k |-> "enum", sec |-> 1, hl |-> 0, lv |-> 0, lx |-> 0, hh |-> 0, hv |-> 0, hx |-> 0, nul |-> 0, soft |-> 0, ne |-> 0, hm |-> 0, al |-> 0, d |-> 1000, hd |-> 1, mn |-> 1000, mx |-> 1000, md |-> 0],
-  [n |-> "k_surface", k |-> "int", sec |-> 1, hl |-> 0, lv |-> 0, lx |-> 0, hh |-> 0, hv |-> 0, hx |-> 0, nul |-> 0, soft |-> 1, ne |-> 0, hm |-> 1, al |-> 0, d |-> 32000, hd |-> 1, mn |-> 1000, mx |-> 64000, md |-> 32000],
-  [n |-> "surface_method", k |-> "enum", sec |-> 1, hl |-> 0, lv |-> 0, lx |-> 0, hh |-> 0, hv |-> 0, hx |-> 0, nul |-> 0, soft |-> 1, ne |-> 0, hm |-> 0, al |-> 0, d |-> 1000, hd |-> 1, mn |-> 1000, mx |-> 2000, md |-> 0],
-  [n |-> "budgets.time_ms", k |-> "int", sec |-> 49, hl |-> 0, lv |-> 0, lx |-> 0, hh |-> 0, hv |-> 0, hx |-> 0, nul |-> 0, soft |-> 1, ne |-> 0, hm |-> 1, al |-> 0, d |-> 0, hd |-> 0, mn |-> 1000, mx |-> 100000000, md |-> 1000000],
-  [n |-> "budgets.ops", k |-> "int", sec |-> 49, hl |-> 0, lv |-> 0, lx |-> 0, hh |-> 0, hv |-> 0, hx |-> 0, nul |-> 0, soft |-> 1, ne |-> 0, hm |-> 1, al |-> 0, d |-> 0, hd |-> 0, mn |-> 1000, mx |-> 100000000, md |-> 1000000],
-  [n |-> "budgets.tokens", k |-> "int", sec |-> 49, hl |-> 0, lv |-> 0, lx |-> 0, hh |-> 0, hv |-> 0, hx |-> 0, nul |-> 0, soft |-> 1, ne |-> 0, hm |-> 1, al |-> 0, d |-> 0, hd |-> 0, mn |-> 1000, mx |-> 100000000, md |-> 1024000],
-  [n |-> "budgets.time_ms_reflection", k |-> "int", sec |-> 49, hl |-> 0, lv |-> 0, lx |-> 0, hh |-> 0, hv |-> 0, hx |-> 0, nul |-> 0, soft |-> 1, ne |-> 0, hm |-> 1, al |-> 0, d |-> 0, hd |-> 0, mn |-> 1000, mx |-> 100000000, md |-> 6000000],
-  [n |-> "flags.enable_world_memory", k |-> "bool", sec |-> 50, hl |-> 0, lv |-> 0, lx |-> 0, hh |-> 0, hv |-> 0, hx |-> 0, nul |-> 0, soft |-> 1, ne |-> 0, hm |-> 0, al |-> 0, d |-> 0, hd |-> 0, mn |-> 0, mx |-> 1000, md |-> 0],
-  [n |-> "flags.allow_reflection", k |-> "bool", sec |-> 50, hl |-> 0, lv |-> 0, lx |-> 0, hh |-> 0, hv |-> 0, hx |-> 0, nul |-> 0, soft |-> 1, ne |-> 0, hm |-> 0, al |-> 0, d |-> 0, hd |-> 0, mn |-> 0, mx |-> 1000, md |-> 0],
-  [n |-> "t1.cache.enabled", k |-> "bool", sec |-> 3, hl |-> 0, lv |-> 0, lx |-> 0, hh |-> 0, hv |-> 0, hx |-> 0, nul |-> 0, soft |-> 1, ne |-> 0, hm |-> 0, al |-> 0, d |-> 0, hd |-> 0, mn |-> 0, mx |-> 1000, md |-> 0],
-  [n |-> "t1.cache.max_entries", k |-> "int", sec |-> 3, hl |-> 1, lv |-> 0, lx |-> 0, hh |-> 0, hv |-> 0, hx |-> 0, nul |-> 0, soft |-> 0, ne |-> 0, hm |-> 1, al |-> 0, d |-> 512000, hd |-> 1, mn |-> 0, mx |-> 1000000, md |-> 500000],
-  [n |-> "t1.cache.ttl_s", k |-> "int", sec |-> 3, hl |-> 1, lv |-> 0, lx |-> 0, hh |-> 0, hv |-> 0, hx |-> 0, nul |-> 0, soft |-> 0, ne |-> 0, hm |-> 1, al |-> 0, d |-> 300000, hd |-> 1, mn |-> 0, mx |-> 1000000, md |-> 500000],
-  [n |-> "t1.cache.ttl_sec", k |-> "int", sec |-> 3, hl |-> 1, lv |-> 0, lx |-> 0, hh |-> 0, hv |-> 0, hx |-> 0, nul |-> 0, soft |-> 0, ne |-> 0, hm |-> 1, al |-> 12, d |-> 0, hd |-> 0, mn |-> 0, mx |-> 1000000, md |-> 500000],
-  [n |-> "t1.iter_cap", k |-> "int", sec |-> 2, hl |-> 1, lv |-> 0, lx |-> 0, hh |-> 0, hv |-> 0, hx |-> 0, nul |-> 0, soft |-> 0, ne |-> 0, hm |-> 1, al |-> 0, d |-> 0, hd |-> 0, mn |-> 0, mx |-> 1000000, md |-> 50000],
-  [n |-> "t1.queue_budget", k |-> "int", sec |-> 2, hl |-> 1, lv |-> 0, lx |-> 0, hh |-> 0, hv |-> 0, hx |-> 0, nul |-> 0, soft |-> 0, ne |-> 0, hm |-> 1, al |-> 0, d |-> 0, hd |-> 0, mn |-> 0, mx |-> 100000000, md |-> 10000000],
-  [n |-> "t1.node_budget", k |-> "float", sec |-> 2, hl |-> 1, lv |-> 0, lx |-> 1, hh |-> 0, hv |-> 0, hx |-> 0, nul |-> 0, soft |-> 0, ne |-> 0, hm |-> 1, al |-> 0, d |-> 0, hd |-> 0, mn |-> 1, mx |-> 1000000, md |-> 1500],
-  [n |-> "t1.radius_cap", k |-> "int", sec |-> 2, hl |-> 0, lv |-> 0, lx |-> 0, hh |-> 0, hv |-> 0, hx |-> 0, nul |-> 0, soft |-> 1, ne |-> 0, hm |-> 1, al |-> 0, d |-> 0, hd |-> 0, mn |-> 0, mx |-> 64000, md |-> 4000],
-  [n |-> "t1.decay.mode", k |-> "enum", sec |-> 4, hl |-> 0, lv |-> 0, lx |-> 0, hh |-> 0, hv |-> 0, hx |-> 0, nul |-> 0, soft |-> 1, ne |-> 0, hm |-> 0, al |-> 0, d |-> 0, hd |-> 0, mn |-> 1000, mx |-> 2000, md |-> 0],
-  [n |-> "t1.decay.rate", k |-> "float", sec |-> 4, hl |-> 0, lv |-> 0, lx |-> 0, hh |-> 0, hv |-> 0, hx |-> 0, nul |-> 0, soft |-> 1, ne |-> 0, hm |-> 1, al |-> 0, d |-> 0, hd |-> 0, mn |-> 0, mx |-> 1000, md |-> 600],
-  [n |-> "t1.decay.floor", k |-> "float", sec |-> 4, hl |-> 0, lv |-> 0, lx |-> 0, hh |-> 0, hv |-> 0, hx |-> 0, nul |-> 0, soft |-> 1, ne |-> 0, hm |-> 1, al |-> 0, d |-> 0, hd |-> 0, mn |-> 0, mx |-> 1000, md |-> 50],
-  [n |-> "t1.edge_type_mult", k |-> "map", sec |-> 2, hl |-> 0, lv |-> 0, lx |-> 0, hh |-> 0, hv |-> 0, hx |-> 0, nul |-> 0, soft |-> 1, ne |-> 0, hm |-> 1, al |-> 0, d |-> 0, hd |-> 0, mn |-> 1000, mx |-> 1000, md |-> 1000],
-  [n |-> "t2.backend", k |-> "enum", sec |-> 6, hl |-> 0, lv |-> 0, lx |-> 0, hh |-> 0, hv |-> 0, hx |-> 0, nul |-> 0, soft |-> 0, ne |-> 0, hm |-> 0, al |-> 0, d |-> 1000, hd |-> 1, mn |-> 1000, mx |-> 2000, md |-> 0],
-  [n |-> "t2.k_retrieval", k |-> "int", sec |-> 6, hl |-> 1, lv |-> 1000, lx |-> 0, hh |-> 0, hv |-> 0, hx |-> 0, nul |-> 0, soft |-> 0, ne |-> 0, hm |-> 1, al |-> 0, d |-> 10000, hd |-> 1, mn |-> 1000, mx |-> 1000000, md |-> 64000],
-  [n |-> "t2.sim_threshold", k |-> "float", sec |-> 6, hl |-> 1, lv |-> -1000, lx |-> 0, hh |-> 1, hv |-> 1000, hx |-> 0, nul |-> 0, soft |-> 0, ne |-> 0, hm |-> 1, al |-> 0, d |-> 0, hd |-> 1, mn |-> -1000, mx |-> 1000, md |-> 300],
-  [n |-> "t2.tiers", k |-> "list", sec |-> 6, hl |-> 0, lv |-> 0, lx |-> 0, hh |-> 0, hv |-> 0, hx |-> 0, nul |-> 0, soft |-> 1, ne |-> 0, hm |-> 1, al |-> 0, d |-> 0, hd |-> 0, mn |-> 1000, mx |-> 1000, md |-> 1000],
-  [n |-> "t2.exact_recent_days", k |-> "int", sec |-> 6, hl |-> 0, lv |-> 0, lx |-> 0, hh |-> 0, hv |-> 0, hx |-> 0, nul |-> 0, soft |-> 1, ne |-> 0, hm |-> 1, al |-> 0, d |-> 0, hd |-> 0, mn |-> 0, mx |-> 3650000, md |-> 30000],
-  [n |-> "t2.clusters_top_m", k |-> "int", sec |-> 6, hl |-> 0, lv |-> 0, lx |-> 0, hh |-> 0, hv |-> 0, hx |-> 0, nul |-> 0, soft |-> 1, ne |-> 0, hm |-> 1, al |-> 0, d |-> 0, hd |-> 0, mn |-> 1000, mx |-> 64000, md |-> 3000],
-  [n |-> "t2.owner_scope", k |-> "enum", sec |-> 6, hl |-> 0, lv |-> 0, lx |-> 0, hh |-> 0, hv |-> 0, hx |-> 0, nul |-> 0, soft |-> 1, ne |-> 0, hm |-> 1, al |-> 0, d |-> 0, hd |-> 0, mn |-> 1000, mx |-> 3000, md |-> 2000],
-  [n |-> "t2.residual_cap_per_turn", k |-> "int", sec |-> 6, hl |-> 0, lv |-> 0, lx |-> 0, hh |-> 0, hv |-> 0, hx |-> 0, nul |-> 0, soft |-> 1, ne |-> 0, hm |-> 1, al |-> 0, d |-> 0, hd |-> 0, mn |-> 0, mx |-> 1000000, md |-> 32000],
-  [n |-> "t2.reader_batch", k |-> "int", sec |-> 6, hl |-> 1, lv |-> 1000, lx |-> 0, hh |-> 0, hv |-> 0, hx |-> 0, nul |-> 0, soft |-> 0, ne |-> 0, hm |-> 1, al |-> 0, d |-> 0, hd |-> 0, mn |-> 1000, mx |-> 100000000, md |-> 8192000],
-  [n |-> "t2.embed_root", k |-> "str", sec |-> 6, hl |-> 0, lv |-> 0, lx |-> 0, hh |-> 0, hv |-> 0, hx |-> 0, nul |-> 0, soft |-> 0, ne |-> 1, hm |-> 1, al |-> 0, d |-> 0, hd |-> 0, mn |-> 1000, mx |-> 1000, md |-> 1000],
-  [n |-> "t2.cache.enabled", k |-> "bool", sec |-> 7, hl |-> 0, lv |-> 0, lx |-> 0, hh |-> 0, hv |-> 0, hx |-> 0, nul |-> 0, soft |-> 1, ne |-> 0, hm |-> 0, al |-> 0, d |-> 0, hd |-> 0, mn |-> 0, mx |-> 1000, md |-> 0],
-  [n |-> "t2.cache.max_entries", k |-> "int", sec |-> 7, hl |-> 1, lv |-> 0, lx |-> 0, hh |-> 0, hv |-> 0, hx |-> 0, nul |-> 0, soft |-> 0, ne |-> 0, hm |-> 1, al |-> 0, d |-> 512000, hd |-> 1, mn |-> 0, mx |-> 1000000, md |-> 500000],
-  [n |-> "t2.cache.ttl_s", k |-> "int", sec |-> 7, hl |-> 1, lv |-> 0, lx |-> 0, hh |-> 0, hv |-> 0, hx |-> 0, nul |-> 0, soft |-> 0, ne |-> 0, hm |-> 1, al |-> 0, d |-> 300000, hd |-> 1, mn |-> 0, mx |-> 1000000, md |-> 500000],
-  [n |-> "t2.cache.ttl_sec", k |-> "int", sec |-> 7, hl |-> 1, lv |-> 0, lx |-> 0, hh |-> 0, hv |-> 0, hx |-> 0, nul |-> 0, soft |-> 0, ne |-> 0, hm |-> 1, al |-> 34, d |-> 0, hd |-> 0, mn |-> 0, mx |-> 1000000, md |-> 500000],
-  [n |-> "t2.ranking.alpha_sim", k |-> "float", sec |-> 8, hl |-> 1, lv |-> 0, lx |-> 0, hh |-> 1, hv |-> 1000, hx |-> 0, nul |-> 0, soft |-> 0, ne |-> 0, hm |-> 1, al |-> 0, d |-> 1000, hd |-> 1, mn |-> 0, mx |-> 1000, md |-> 750],
-  [n |-> "t2.ranking.beta_recency", k |-> "float", sec |-> 8, hl |-> 1, lv |-> 0, lx |-> 0, hh |-> 1, hv |-> 1000, hx |-> 0, nul |-> 0, soft |-> 0, ne |-> 0, hm |-> 1, al |-> 0, d |-> 0, hd |-> 1, mn |-> 0, mx |-> 1000, md |-> 200],
-  [n |-> "t2.ranking.gamma_importance", k |-> "float", sec |-> 8, hl |-> 1, lv |-> 0, lx |-> 0, hh |-> 1, hv |-> 1000, hx |-> 0, nul |-> 0, soft |-> 0, ne |-> 0, hm |-> 1, al |-> 0, d |-> 0, hd |-> 1, mn |-> 0, mx |-> 1000, md |-> 50],
-  [n |-> "t2.hybrid.enabled", k |-> "bool", sec |-> 9, hl |-> 0, lv |-> 0, lx |-> 0, hh |-> 0, hv |-> 0, hx |-> 0, nul |-> 0, soft |-> 0, ne |-> 0, hm |-> 0, al |-> 0, d |-> 0, hd |-> 1, mn |-> 0, mx |-> 1000, md |-> 0],
-  [n |-> "t2.hybrid.use_graph", k |-> "bool", sec |-> 9, hl |-> 0, lv |-> 0, lx |-> 0, hh |-> 0, hv |-> 0, hx |-> 0, nul |-> 0, soft |-> 0, ne |-> 0, hm |-> 0, al |-> 0, d |-> 1000, hd |-> 1, mn |-> 0, mx |-> 1000, md |-> 0],
-  [n |-> "t2.hybrid.anchor_top_m", k |-> "int", sec |-> 9, hl |-> 1, lv |-> 1000, lx |-> 0, hh |-> 0, hv |-> 0, hx |-> 0, nul |-> 0, soft |-> 0, ne |-> 0, hm |-> 1, al |-> 0, d |-> 8000, hd |-> 1, mn |-> 1000, mx |-> 1000000, md |-> 8000],
-  [n |-> "t2.hybrid.walk_hops", k |-> "int", sec |-> 9, hl |-> 1, lv |-> 1000, lx |-> 0, hh |-> 1, hv |-> 2000, hx |-> 0, nul |-> 0, soft |-> 0, ne |-> 0, hm |-> 0, al |-> 0, d |-> 1000, hd |-> 1, mn |-> 1000, mx |-> 2000, md |-> 0],
-  [n |-> "t2.hybrid.edge_threshold", k |-> "float", sec |-> 9, hl |-> 1, lv |-> 0, lx |-> 0, hh |-> 1, hv |-> 1000, hx |-> 0, nul |-> 0, soft |-> 0, ne |-> 0, hm |-> 1, al |-> 0, d |-> 100, hd |-> 1, mn |-> 0, mx |-> 1000, md |-> 100],
-  [n |-> "t2.hybrid.lambda_graph", k |-> "float", sec |-> 9, hl |-> 1, lv |-> 0, lx |-> 0, hh |-> 1, hv |-> 1000, hx |-> 0, nul |-> 0, soft |-> 0, ne |-> 0, hm |-> 1, al |-> 0, d |-> 250, hd |-> 1, mn |-> 0, mx |-> 1000, md |-> 250],
-  [n |-> "t2.hybrid.damping", k |-> "float", sec |-> 9, hl |-> 1, lv |-> 0, lx |-> 0, hh |-> 1, hv |-> 1000, hx |-> 0, nul |-> 0, soft |-> 0, ne |-> 0, hm |-> 1, al |-> 0, d |-> 500, hd |-> 1, mn |-> 0, mx |-> 1000, md |-> 500],
-  [n |-> "t2.hybrid.degree_norm", k |-> "enum", sec |-> 9, hl |-> 0, lv |-> 0, lx |-> 0, hh |-> 0, hv |-> 0, hx |-> 0, nul |-> 0, soft |-> 0, ne |-> 0, hm |-> 0, al |-> 0, d |-> 1000, hd |-> 1, mn |-> 1000, mx |-> 2000, md |-> 0],
-  [n |-> "t2.hybrid.max_bonus", k |-> "float", sec |-> 9, hl |-> 1, lv |-> 0, lx |-> 0, hh |-> 0, hv |-> 0, hx |-> 0, nul |-> 0, soft |-> 0, ne |-> 0, hm |-> 1, al |-> 0, d |-> 500, hd |-> 1, mn |-> 0, mx |-> 1000000, md |-> 500],
-  [n |-> "t2.hybrid.k_max", k |-> "int", sec |-> 9, hl |-> 1, lv |-> 1000, lx |-> 0, hh |-> 0, hv |-> 0, hx |-> 0, nul |-> 0, soft |-> 0, ne |-> 0, hm |-> 1, al |-> 0, d |-> 128000, hd |-> 1, mn |-> 1000, mx |-> 1000000, md |-> 128000],
-  [n |-> "t2.reader.mode", k |-> "enum", sec |-> 10, hl |-> 0, lv |-> 0, lx |-> 0, hh |-> 0, hv |-> 0, hx |-> 0, nul |-> 0, soft |-> 0, ne |-> 0, hm |-> 1, al |-> 0, d |-> 1000, hd |-> 1, mn |-> 1000, mx |-> 3000, md |-> 2000],
-  [n |-> "t2.lancedb.partitions.by", k |-> "list", sec |-> 12, hl |-> 0, lv |-> 0, lx |-> 0, hh |-> 0, hv |-> 0, hx |-> 0, nul |-> 0, soft |-> 0, ne |-> 0, hm |-> 1, al |-> 0, d |-> 0, hd |-> 0, mn |-> 1000, mx |-> 1000, md |-> 1000],
-  [n |-> "t2.lancedb.partitions.shard_order", k |-> "enum", sec |-> 12, hl |-> 0, lv |-> 0, lx |-> 0, hh |-> 0, hv |-> 0, hx |-> 0, nul |-> 0, soft |-> 0, ne |-> 0, hm |-> 0, al |-> 0, d |-> 0, hd |-> 0, mn |-> 1000, mx |-> 2000, md |-> 0],
-  [n |-> "t2.quality.enabled", k |-> "bool", sec |-> 13, hl |-> 0, lv |-> 0, lx |-> 0, hh |-> 0, hv |-> 0, hx |-> 0, nul |-> 0, soft |-> 0, ne |-> 0, hm |-> 0, al |-> 0, d |-> 0, hd |-> 1, mn |-> 0, mx |-> 1000, md |-> 0],
-  [n |-> "t2.quality.shadow", k |-> "bool", sec |-> 13, hl |-> 0, lv |-> 0, lx |-> 0, hh |-> 0, hv |-> 0, hx |-> 0, nul |-> 0, soft |-> 0, ne |-> 0, hm |-> 0, al |-> 0, d |-> 0, hd |-> 1, mn |-> 0, mx |-> 1000, md |-> 0],
-  [n |-> "t2.quality.trace_dir", k |-> "str", sec |-> 13, hl |-> 0, lv |-> 0, lx |-> 0, hh |-> 0, hv |-> 0, hx |-> 0, nul |-> 0, soft |-> 0, ne |-> 1, hm |-> 1, al |-> 0, d |-> 0, hd |-> 1, mn |-> 1000, mx |-> 1000, md |-> 1000],
-  [n |-> "t2.quality.redact", k |-> "bool", sec |-> 13, hl |-> 0, lv |-> 0, lx |-> 0, hh |-> 0, hv |-> 0, hx |-> 0, nul |-> 0, soft |-> 0, ne |-> 0, hm |-> 0, al |-> 0, d |-> 1000, hd |-> 1, mn |-> 0, mx |-> 1000, md |-> 0],
-  [n |-> "t2.quality.normalizer.enabled", k |-> "bool", sec |-> 14, hl |-> 0, lv |-> 0, lx |-> 0, hh |-> 0, hv |-> 0, hx |-> 0, nul |-> 0, soft |-> 0, ne |-> 0, hm |-> 0, al |-> 0, d |-> 0, hd |-> 0, mn |-> 0, mx |-> 1000, md |-> 0],
-  [n |-> "t2.quality.normalizer.case", k |-> "enum", sec |-> 14, hl |-> 0, lv |-> 0, lx |-> 0, hh |-> 0, hv |-> 0, hx |-> 0, nul |-> 0, soft |-> 0, ne |-> 0, hm |-> 0, al |-> 0, d |-> 1000, hd |-> 1, mn |-> 1000, mx |-> 1000, md |-> 0],
-  [n |-> "t2.quality.normalizer.unicode", k |-> "enum", sec |-> 14, hl |-> 0, lv |-> 0, lx |-> 0, hh |-> 0, hv |-> 0, hx |-> 0, nul |-> 0, soft |-> 0, ne |-> 0, hm |-> 0, al |-> 0, d |-> 1000, hd |-> 1, mn |-> 1000, mx |-> 1000, md |-> 0],
-  [n |-> "t2.quality.normalizer.stopwords", k |-> "str", sec |-> 14, hl |-> 0, lv |-> 0, lx |-> 0, hh |-> 0, hv |-> 0, hx |-> 0, nul |-> 0, soft |-> 0, ne |-> 1, hm |-> 1, al |-> 0, d |-> 0, hd |-> 0, mn |-> 1000, mx |-> 1000, md |-> 1000],
-  [n |-> "t2.quality.normalizer.stemmer", k |-> "enum", sec |-> 14, hl |-> 0, lv |-> 0, lx |-> 0, hh |-> 0, hv |-> 0, hx |-> 0, nul |-> 0, soft |-> 0, ne |-> 0, hm |-> 0, al |-> 0, d |-> 0, hd |-> 0, mn |-> 1000, mx |-> 2000, md |-> 0],
-  [n |-> "t2.quality.normalizer.min_token_len", k |-> "int", sec |-> 14, hl |-> 1, lv |-> 1000, lx |-> 0, hh |-> 0, hv |-> 0, hx |-> 0, nul |-> 0, soft |-> 0, ne |-> 0, hm |-> 1, al |-> 0, d |-> 0, hd |-> 0, mn |-> 1000, mx |-> 64000, md |-> 2000],
-  [n |-> "t2.quality.aliasing.enabled", k |-> "bool", sec |-> 15, hl |-> 0, lv |-> 0, lx |-> 0, hh |-> 0, hv |-> 0, hx |-> 0, nul |-> 0, soft |-> 0, ne |-> 0, hm |-> 0, al |-> 0, d |-> 0, hd |-> 0, mn |-> 0, mx |-> 1000, md |-> 0],
-  [n |-> "t2.quality.aliasing.map_path", k |-> "str", sec |-> 15, hl |-> 0, lv |-> 0, lx |-> 0, hh |-> 0, hv |-> 0, hx |-> 0, nul |-> 0, soft |-> 0, ne |-> 1, hm |-> 1, al |-> 0, d |-> 0, hd |-> 0, mn |-> 1000, mx |-> 1000, md |-> 1000],
-  [n |-> "t2.quality.aliasing.max_expansions_per_token", k |-> "int", sec |-> 15, hl |-> 1, lv |-> 0, lx |-> 0, hh |-> 0, hv |-> 0, hx |-> 0, nul |-> 0, soft |-> 0, ne |-> 0, hm |-> 1, al |-> 0, d |-> 0, hd |-> 0, mn |-> 0, mx |-> 64000, md |-> 2000],
-  [n |-> "t2.quality.lexical.enabled", k |-> "bool", sec |-> 16, hl |-> 0, lv |-> 0, lx |-> 0, hh |-> 0, hv |-> 0, hx |-> 0, nul |-> 0, soft |-> 0, ne |-> 0, hm |-> 0, al |-> 0, d |-> 0, hd |-> 0, mn |-> 0, mx |-> 1000, md |-> 0],
-  [n |-> "t2.quality.lexical.bm25_k1", k |-> "float", sec |-> 16, hl |-> 1, lv |-> 0, lx |-> 0, hh |-> 0, hv |-> 0, hx |-> 0, nul |-> 0, soft |-> 0, ne |-> 0, hm |-> 1, al |-> 0, d |-> 1200, hd |-> 1, mn |-> 0, mx |-> 10000, md |-> 1200],
-  [n |-> "t2.quality.lexical.bm25_b", k |-> "float", sec |-> 16, hl |-> 1, lv |-> 0, lx |-> 0, hh |-> 1, hv |-> 1000, hx |-> 0, nul |-> 0, soft |-> 0, ne |-> 0, hm |-> 1, al |-> 0, d |-> 750, hd |-> 1, mn |-> 0, mx |-> 1000, md |-> 750],
-  [n |-> "t2.quality.lexical.stopwords", k |-> "enum", sec |-> 16, hl |-> 0, lv |-> 0, lx |-> 0, hh |-> 0, hv |-> 0, hx |-> 0, nul |-> 0, soft |-> 0, ne |-> 0, hm |-> 0, al |-> 0, d |-> 2000, hd |-> 1, mn |-> 1000, mx |-> 2000, md |-> 0],
-  [n |-> "t2.quality.lexical.bm25.k1", k |-> "float", sec |-> 17, hl |-> 0, lv |-> 0, lx |-> 0, hh |-> 0, hv |-> 0, hx |-> 0, nul |-> 0, soft |-> 1, ne |-> 0, hm |-> 1, al |-> 0, d |-> 0, hd |-> 0, mn |-> 0, mx |-> 10000, md |-> 1200],
-  [n |-> "t2.quality.lexical.bm25.b", k |-> "float", sec |-> 17, hl |-> 0, lv |-> 0, lx |-> 0, hh |-> 0, hv |-> 0, hx |-> 0, nul |-> 0, soft |-> 1, ne |-> 0, hm |-> 1, al |-> 0, d |-> 0, hd |-> 0, mn |-> 0, mx |-> 1000, md |-> 750],
-  [n |-> "t2.quality.lexical.bm25.doclen_floor", k |-> "int", sec |-> 17, hl |-> 1, lv |-> 0, lx |-> 0, hh |-> 0, hv |-> 0, hx |-> 0, nul |-> 0, soft |-> 0, ne |-> 0, hm |-> 1, al |-> 0, d |-> 0, hd |-> 0, mn |-> 0, mx |-> 10000000, md |-> 10000],
-  [n |-> "t2.quality.fusion.enabled", k |-> "bool", sec |-> 18, hl |-> 0, lv |-> 0, lx |-> 0, hh |-> 0, hv |-> 0, hx |-> 0, nul |-> 0, soft |-> 0, ne |-> 0, hm |-> 0, al |-> 0, d |-> 0, hd |-> 0, mn |-> 0, mx |-> 1000, md |-> 0],
-  [n |-> "t2.quality.fusion.mode", k |-> "enum", sec |-> 18, hl |-> 0, lv |-> 0, lx |-> 0, hh |-> 0, hv |-> 0, hx |-> 0, nul |-> 0, soft |-> 0, ne |-> 0, hm |-> 0, al |-> 0, d |-> 1000, hd |-> 1, mn |-> 1000, mx |-> 1000, md |-> 0],
-  [n |-> "t2.quality.fusion.alpha_semantic", k |-> "float", sec |-> 18, hl |-> 1, lv |-> 0, lx |-> 0, hh |-> 1, hv |-> 1000, hx |-> 0, nul |-> 0, soft |-> 0, ne |-> 0, hm |-> 1, al |-> 0, d |-> 600, hd |-> 1, mn |-> 0, mx |-> 1000, md |-> 700],
-  [n |-> "t2.quality.fusion.score_norm", k |-> "enum", sec |-> 18, hl |-> 0, lv |-> 0, lx |-> 0, hh |-> 0, hv |-> 0, hx |-> 0, nul |-> 0, soft |-> 0, ne |-> 0, hm |-> 0, al |-> 0, d |-> 0, hd |-> 0, mn |-> 1000, mx |-> 2000, md |-> 0],
-  [n |-> "t2.quality.mmr.enabled", k |-> "bool", sec |-> 19, hl |-> 0, lv |-> 0, lx |-> 0, hh |-> 0, hv |-> 0, hx |-> 0, nul |-> 0, soft |-> 0, ne |-> 0, hm |-> 0, al |-> 0, d |-> 0, hd |-> 0, mn |-> 0, mx |-> 1000, md |-> 0],
-  [n |-> "t2.quality.mmr.lambda", k |-> "float", sec |-> 19, hl |-> 1, lv |-> 0, lx |-> 0, hh |-> 1, hv |-> 1000, hx |-> 0, nul |-> 0, soft |-> 0, ne |-> 0, hm |-> 1, al |-> 0, d |-> 0, hd |-> 0, mn |-> 0, mx |-> 1000, md |-> 500],
-  [n |-> "t2.quality.mmr.lambda_relevance", k |-> "float", sec |-> 19, hl |-> 1, lv |-> 0, lx |-> 0, hh |-> 1, hv |-> 1000, hx |-> 0, nul |-> 0, soft |-> 0, ne |-> 0, hm |-> 1, al |-> 77, d |-> 0, hd |-> 0, mn |-> 0, mx |-> 1000, md |-> 750],
-  [n |-> "t2.quality.mmr.diversity_by_owner", k |-> "bool", sec |-> 19, hl |-> 0, lv |-> 0, lx |-> 0, hh |-> 0, hv |-> 0, hx |-> 0, nul |-> 0, soft |-> 0, ne |-> 0, hm |-> 0, al |-> 0, d |-> 0, hd |-> 0, mn |-> 0, mx |-> 1000, md |-> 0],
-  [n |-> "t2.quality.mmr.diversity_by_token", k |-> "bool", sec |-> 19, hl |-> 0, lv |-> 0, lx |-> 0, hh |-> 0, hv |-> 0, hx |-> 0, nul |-> 0, soft |-> 0, ne |-> 0, hm |-> 0, al |-> 0, d |-> 0, hd |-> 0, mn |-> 0, mx |-> 1000, md |-> 0],
-  [n |-> "t2.quality.mmr.k", k |-> "int", sec |-> 19, hl |-> 1, lv |-> 1000, lx |-> 0, hh |-> 0, hv |-> 0, hx |-> 0, nul |-> 0, soft |-> 0, ne |-> 0, hm |-> 1, al |-> 0, d |-> 0, hd |-> 0, mn |-> 1000, mx |-> 1000000, md |-> 8000],
-  [n |-> "t2.quality.mmr.k_final", k |-> "int", sec |-> 19, hl |-> 1, lv |-> 1000, lx |-> 0, hh |-> 0, hv |-> 0, hx |-> 0, nul |-> 0, soft |-> 0, ne |-> 0, hm |-> 1, al |-> 81, d |-> 0, hd |-> 0, mn |-> 1000, mx |-> 1000000, md |-> 8000],
-  [n |-> "t3.max_rag_loops", k |-> "int", sec |-> 20, hl |-> 1, lv |-> 0, lx |-> 0, hh |-> 1, hv |-> 1000, hx |-> 0, nul |-> 0, soft |-> 0, ne |-> 0, hm |-> 0, al |-> 0, d |-> 1000, hd |-> 1, mn |-> 0, mx |-> 1000, md |-> 0],
-  [n |-> "t3.max_ops_per_turn", k |-> "int", sec |-> 20, hl |-> 1, lv |-> 1000, lx |-> 0, hh |-> 1, hv |-> 16000, hx |-> 0, nul |-> 0, soft |-> 0, ne |-> 0, hm |-> 1, al |-> 0, d |-> 8000, hd |-> 1, mn |-> 1000, mx |-> 16000, md |-> 3000],
-  [n |-> "t3.backend", k |-> "enum", sec |-> 20, hl |-> 0, lv |-> 0, lx |-> 0, hh |-> 0, hv |-> 0, hx |-> 0, nul |-> 0, soft |-> 0, ne |-> 0, hm |-> 0, al |-> 0, d |-> 1000, hd |-> 1, mn |-> 1000, mx |-> 2000, md |-> 0],
-  [n |-> "t3.tokens", k |-> "int", sec |-> 20, hl |-> 1, lv |-> 1000, lx |-> 0, hh |-> 0, hv |-> 0, hx |-> 0, nul |-> 0, soft |-> 0, ne |-> 0, hm |-> 1, al |-> 0, d |-> 256000, hd |-> 1, mn |-> 1000, mx |-> 1000000, md |-> 256000],
-  [n |-> "t3.temp", k |-> "float", sec |-> 20, hl |-> 1, lv |-> 0, lx |-> 0, hh |-> 1, hv |-> 1000, hx |-> 0, nul |-> 0, soft |-> 0, ne |-> 0, hm |-> 1, al |-> 0, d |-> 700, hd |-> 1, mn |-> 0, mx |-> 1000, md |-> 200],
-  [n |-> "t3.allow_reflection", k |-> "bool", sec |-> 20, hl |-> 0, lv |-> 0, lx |-> 0, hh |-> 0, hv |-> 0, hx |-> 0, nul |-> 0, soft |-> 0, ne |-> 0, hm |-> 0, al |-> 0, d |-> 0, hd |-> 1, mn |-> 0, mx |-> 1000, md |-> 0],
-  [n |-> "t3.apply_ops", k |-> "bool", sec |-> 20, hl |-> 0, lv |-> 0, lx |-> 0, hh |-> 0, hv |-> 0, hx |-> 0, nul |-> 0, soft |-> 0, ne |-> 0, hm |-> 0, al |-> 0, d |-> 0, hd |-> 1, mn |-> 0, mx |-> 1000, md |-> 0],
-  [n |-> "t3.dialogue.template", k |-> "str", sec |-> 21, hl |-> 0, lv |-> 0, lx |-> 0, hh |-> 0, hv |-> 0, hx |-> 0, nul |-> 0, soft |-> 0, ne |-> 1, hm |-> 1, al |-> 0, d |-> 0, hd |-> 0, mn |-> 1000, mx |-> 1000, md |-> 1000],
-  [n |-> "t3.dialogue.include_top_k_snippets", k |-> "int", sec |-> 21, hl |-> 1, lv |-> 0, lx |-> 0, hh |-> 0, hv |-> 0, hx |-> 0, nul |-> 0, soft |-> 0, ne |-> 0, hm |-> 1, al |-> 0, d |-> 0, hd |-> 0, mn |-> 0, mx |-> 64000, md |-> 2000],
-  [n |-> "t3.policy.tau_high", k |-> "float", sec |-> 22, hl |-> 1, lv |-> 0, lx |-> 0, hh |-> 1, hv |-> 1000, hx |-> 0, nul |-> 0, soft |-> 0, ne |-> 0, hm |-> 1, al |-> 0, d |-> 0, hd |-> 0, mn |-> 0, mx |-> 1000, md |-> 800],
-  [n |-> "t3.policy.tau_low", k |-> "float", sec |-> 22, hl |-> 1, lv |-> 0, lx |-> 0, hh |-> 1, hv |-> 1000, hx |-> 0, nul |-> 0, soft |-> 0, ne |-> 0, hm |-> 1, al |-> 0, d |-> 0, hd |-> 0, mn |-> 0, mx |-> 1000, md |-> 400],
-  [n |-> "t3.policy.epsilon_edit", k |-> "float", sec |-> 22, hl |-> 1, lv |-> 0, lx |-> 0, hh |-> 1, hv |-> 1000, hx |-> 0, nul |-> 0, soft |-> 0, ne |-> 0, hm |-> 1, al |-> 0, d |-> 0, hd |-> 0, mn |-> 0, mx |-> 1000, md |-> 100],
-  [n |-> "t3.reflection.backend", k |-> "enum", sec |-> 23, hl |-> 0, lv |-> 0, lx |-> 0, hh |-> 0, hv |-> 0, hx |-> 0, nul |-> 0, soft |-> 0, ne |-> 0, hm |-> 0, al |-> 0, d |-> 1000, hd |-> 1, mn |-> 1000, mx |-> 2000, md |-> 0],
-  [n |-> "t3.reflection.summary_tokens", k |-> "int", sec |-> 23, hl |-> 1, lv |-> 0, lx |-> 0, hh |-> 0, hv |-> 0, hx |-> 0, nul |-> 0, soft |-> 0, ne |-> 0, hm |-> 1, al |-> 0, d |-> 128000, hd |-> 1, mn |-> 0, mx |-> 1000000, md |-> 128000],
-  [n |-> "t3.reflection.embed", k |-> "bool", sec |-> 23, hl |-> 0, lv |-> 0, lx |-> 0, hh |-> 0, hv |-> 0, hx |-> 0, nul |-> 0, soft |-> 0, ne |-> 0, hm |-> 0, al |-> 0, d |-> 1000, hd |-> 1, mn |-> 0, mx |-> 1000, md |-> 0],
-  [n |-> "t3.reflection.log", k |-> "bool", sec |-> 23, hl |-> 0, lv |-> 0, lx |-> 0, hh |-> 0, hv |-> 0, hx |-> 0, nul |-> 0, soft |-> 0, ne |-> 0, hm |-> 0, al |-> 0, d |-> 1000, hd |-> 1, mn |-> 0, mx |-> 1000, md |-> 0],
-  [n |-> "t3.reflection.topk_snippets", k |-> "int", sec |-> 23, hl |-> 1, lv |-> 0, lx |-> 0, hh |-> 0, hv |-> 0, hx |-> 0, nul |-> 0, soft |-> 0, ne |-> 0, hm |-> 1, al |-> 0, d |-> 3000, hd |-> 1, mn |-> 0, mx |-> 64000, md |-> 3000],
-  [n |-> "t3.llm.provider", k |-> "enum", sec |-> 24, hl |-> 0, lv |-> 0, lx |-> 0, hh |-> 0, hv |-> 0, hx |-> 0, nul |-> 0, soft |-> 0, ne |-> 0, hm |-> 0, al |-> 0, d |-> 1000, hd |-> 1, mn |-> 1000, mx |-> 2000, md |-> 0],
-  [n |-> "t3.llm.model", k |-> "str", sec |-> 24, hl |-> 0, lv |-> 0, lx |-> 0, hh |-> 0, hv |-> 0, hx |-> 0, nul |-> 0, soft |-> 0, ne |-> 1, hm |-> 1, al |-> 0, d |-> 0, hd |-> 1, mn |-> 1000, mx |-> 1000, md |-> 1000],
-  [n |-> "t3.llm.endpoint", k |-> "str", sec |-> 24, hl |-> 0, lv |-> 0, lx |-> 0, hh |-> 0, hv |-> 0, hx |-> 0, nul |-> 0, soft |-> 0, ne |-> 1, hm |-> 1, al |-> 0, d |-> 0, hd |-> 1, mn |-> 1000, mx |-> 1000, md |-> 1000],
-  [n |-> "t3.llm.max_tokens", k |-> "int", sec |-> 24, hl |-> 1, lv |-> 1000, lx |-> 0, hh |-> 0, hv |-> 0, hx |-> 0, nul |-> 0, soft |-> 0, ne |-> 0, hm |-> 1, al |-> 0, d |-> 256000, hd |-> 1, mn |-> 1000, mx |-> 1000000, md |-> 256000],
-  [n |-> "t3.llm.temp", k |-> "float", sec |-> 24, hl |-> 1, lv |-> 0, lx |-> 0, hh |-> 1, hv |-> 1000, hx |-> 0, nul |-> 0, soft |-> 0, ne |-> 0, hm |-> 1, al |-> 0, d |-> 200, hd |-> 1, mn |-> 0, mx |-> 1000, md |-> 200],
-  [n |-> "t3.llm.timeout_ms", k |-> "int", sec |-> 24, hl |-> 1, lv |-> 1000, lx |-> 0, hh |-> 0, hv |-> 0, hx |-> 0, nul |-> 0, soft |-> 0, ne |-> 0, hm |-> 1, al |-> 0, d |-> 10000000, hd |-> 1, mn |-> 1000, mx |-> 20000000, md |-> 10000000],
-  [n |-> "t3.llm.fixtures.enabled", k |-> "bool", sec |-> 25, hl |-> 0, lv |-> 0, lx |-> 0, hh |-> 0, hv |-> 0, hx |-> 0, nul |-> 0, soft |-> 0, ne |-> 0, hm |-> 0, al |-> 0, d |-> 0, hd |-> 1, mn |-> 0, mx |-> 1000, md |-> 0],
-  [n |-> "t3.llm.fixtures.path", k |-> "str", sec |-> 25, hl |-> 0, lv |-> 0, lx |-> 0, hh |-> 0, hv |-> 0, hx |-> 0, nul |-> 1, soft |-> 1, ne |-> 1, hm |-> 1, al |-> 0, d |-> 0, hd |-> 0, mn |-> 1000, mx |-> 1000, md |-> 1000],
-  [n |-> "t4.enabled", k |-> "bool", sec |-> 26, hl |-> 0, lv |-> 0, lx |-> 0, hh |-> 0, hv |-> 0, hx |-> 0, nul |-> 0, soft |-> 0, ne |-> 0, hm |-> 0, al |-> 0, d |-> 1000, hd |-> 1, mn |-> 0, mx |-> 1000, md |-> 0],
-  [n |-> "t4.delta_norm_cap_l2", k |-> "float", sec |-> 26, hl |-> 1, lv |-> 0, lx |-> 1, hh |-> 0, hv |-> 0, hx |-> 0, nul |-> 0, soft |-> 0, ne |-> 0, hm |-> 1, al |-> 0, d |-> 1500, hd |-> 1, mn |-> 1, mx |-> 1000000, md |-> 1500],
-  [n |-> "t4.novelty_cap_per_node", k |-> "float", sec |-> 26, hl |-> 1, lv |-> 0, lx |-> 1, hh |-> 1, hv |-> 1000, hx |-> 0, nul |-> 0, soft |-> 0, ne |-> 0, hm |-> 1, al |-> 0, d |-> 300, hd |-> 1, mn |-> 1, mx |-> 1000, md |-> 300],
-  [n |-> "t4.churn_cap_edges", k |-> "int", sec |-> 26, hl |-> 1, lv |-> 0, lx |-> 0, hh |-> 0, hv |-> 0, hx |-> 0, nul |-> 0, soft |-> 0, ne |-> 0, hm |-> 1, al |-> 0, d |-> 64000, hd |-> 1, mn |-> 0, mx |-> 1000000, md |-> 64000],
-  [n |-> "t4.cooldowns", k |-> "map", sec |-> 26, hl |-> 1, lv |-> 0, lx |-> 0, hh |-> 0, hv |-> 0, hx |-> 0, nul |-> 0, soft |-> 0, ne |-> 0, hm |-> 1, al |-> 0, d |-> 0, hd |-> 1, mn |-> 1000, mx |-> 1000, md |-> 1000],
-  [n |-> "t4.weight_min", k |-> "float", sec |-> 26, hl |-> 1, lv |-> -1000, lx |-> 0, hh |-> 1, hv |-> 1000, hx |-> 0, nul |-> 0, soft |-> 0, ne |-> 0, hm |-> 1, al |-> 0, d |-> -1000, hd |-> 1, mn |-> -1000, mx |-> 1000, md |-> -500],
-  [n |-> "t4.weight_max", k |-> "float", sec |-> 26, hl |-> 1, lv |-> -1000, lx |-> 0, hh |-> 1, hv |-> 1000, hx |-> 0, nul |-> 0, soft |-> 0, ne |-> 0, hm |-> 1, al |-> 0, d |-> 1000, hd |-> 1, mn |-> -1000, mx |-> 1000, md |-> 500],
-  [n |-> "t4.snapshot_every_n_turns", k |-> "int", sec |-> 26, hl |-> 1, lv |-> 1000, lx |-> 0, hh |-> 0, hv |-> 0, hx |-> 0, nul |-> 0, soft |-> 0, ne |-> 0, hm |-> 1, al |-> 0, d |-> 1000, hd |-> 1, mn |-> 1000, mx |-> 1000000, md |-> 2000],
-  [n |-> "t4.snapshot_dir", k |-> "str", sec |-> 26, hl |-> 0, lv |-> 0, lx |-> 0, hh |-> 0, hv |-> 0, hx |-> 0, nul |-> 0, soft |-> 0, ne |-> 1, hm |-> 1, al |-> 0, d |-> 0, hd |-> 1, mn |-> 1000, mx |-> 1000, md |-> 1000],
-  [n |-> "t4.cache_bust_mode", k |-> "enum", sec |-> 26, hl |-> 0, lv |-> 0, lx |-> 0, hh |-> 0, hv |-> 0, hx |-> 0, nul |-> 0, soft |-> 0, ne |-> 0, hm |-> 0, al |-> 0, d |-> 2000, hd |-> 1, mn |-> 1000, mx |-> 2000, md |-> 0],
-  [n |-> "t4.cache.enabled", k |-> "bool", sec |-> 27, hl |-> 0, lv |-> 0, lx |-> 0, hh |-> 0, hv |-> 0, hx |-> 0, nul |-> 0, soft |-> 0, ne |-> 0, hm |-> 0, al |-> 0, d |-> 1000, hd |-> 1, mn |-> 0, mx |-> 1000, md |-> 0],
-  [n |-> "t4.cache.namespaces", k |-> "list", sec |-> 27, hl |-> 0, lv |-> 0, lx |-> 0, hh |-> 1, hv |-> 0, hx |-> 0, nul |-> 0, soft |-> 0, ne |-> 0, hm |-> 1, al |-> 0, d |-> 0, hd |-> 1, mn |-> 1000, mx |-> 1000, md |-> 1000],
-  [n |-> "t4.cache.max_entries", k |-> "int", sec |-> 27, hl |-> 1, lv |-> 0, lx |-> 0, hh |-> 0, hv |-> 0, hx |-> 0, nul |-> 0, soft |-> 0, ne |-> 0, hm |-> 1, al |-> 0, d |-> 512000, hd |-> 1, mn |-> 0, mx |-> 1000000, md |-> 500000],
-  [n |-> "t4.cache.ttl_sec", k |-> "int", sec |-> 27, hl |-> 1, lv |-> 0, lx |-> 0, hh |-> 0, hv |-> 0, hx |-> 0, nul |-> 0, soft |-> 0, ne |-> 0, hm |-> 1, al |-> 0, d |-> 600000, hd |-> 1, mn |-> 0, mx |-> 1000000, md |-> 500000],
-  [n |-> "t4.cache.ttl_s", k |-> "int", sec |-> 27, hl |-> 1, lv |-> 0, lx |-> 0, hh |-> 0, hv |-> 0, hx |-> 0, nul |-> 0, soft |-> 0, ne |-> 0, hm |-> 1, al |-> 121, d |-> 0, hd |-> 0, mn |-> 0, mx |-> 1000000, md |-> 500000],
-  [n |-> "graph.enabled", k |-> "bool", sec |-> 29, hl |-> 0, lv |-> 0, lx |-> 0, hh |-> 0, hv |-> 0, hx |-> 0, nul |-> 0, soft |-> 0, ne |-> 0, hm |-> 0, al |-> 0, d |-> 0, hd |-> 1, mn |-> 0, mx |-> 1000, md |-> 0],
-  [n |-> "graph.coactivation_threshold", k |-> "float", sec |-> 29, hl |-> 1, lv |-> 0, lx |-> 0, hh |-> 1, hv |-> 1000, hx |-> 0, nul |-> 0, soft |-> 0, ne |-> 0, hm |-> 1, al |-> 0, d |-> 200, hd |-> 1, mn |-> 0, mx |-> 1000, md |-> 200],
-  [n |-> "graph.observe_top_k", k |-> "int", sec |-> 29, hl |-> 1, lv |-> 1000, lx |-> 0, hh |-> 0, hv |-> 0, hx |-> 0, nul |-> 0, soft |-> 0, ne |-> 0, hm |-> 1, al |-> 0, d |-> 64000, hd |-> 1, mn |-> 1000, mx |-> 1000000, md |-> 64000],
-  [n |-> "graph.pair_cap_per_obs", k |-> "int", sec |-> 29, hl |-> 1, lv |-> 0, lx |-> 0, hh |-> 0, hv |-> 0, hx |-> 0, nul |-> 0, soft |-> 0, ne |-> 0, hm |-> 1, al |-> 0, d |-> 2048000, hd |-> 1, mn |-> 0, mx |-> 4096000, md |-> 2048000],
-  [n |-> "graph.update.mode", k |-> "enum", sec |-> 30, hl |-> 0, lv |-> 0, lx |-> 0, hh |-> 0, hv |-> 0, hx |-> 0, nul |-> 0, soft |-> 0, ne |-> 0, hm |-> 0, al |-> 0, d |-> 1000, hd |-> 1, mn |-> 1000, mx |-> 2000, md |-> 0],
-  [n |-> "graph.update.alpha", k |-> "float", sec |-> 30, hl |-> 1, lv |-> 0, lx |-> 1, hh |-> 0, hv |-> 0, hx |-> 0, nul |-> 0, soft |-> 0, ne |-> 0, hm |-> 1, al |-> 0, d |-> 20, hd |-> 1, mn |-> 1, mx |-> 1000, md |-> 20],
-  [n |-> "graph.update.clamp_min", k |-> "float", sec |-> 30, hl |-> 0, lv |-> 0, lx |-> 0, hh |-> 0, hv |-> 0, hx |-> 0, nul |-> 0, soft |-> 0, ne |-> 0, hm |-> 1, al |-> 0, d |-> -1000, hd |-> 1, mn |-> -1000, mx |-> -250, md |-> -900],
-  [n |-> "graph.update.clamp_max", k |-> "float", sec |-> 30, hl |-> 0, lv |-> 0, lx |-> 0, hh |-> 0, hv |-> 0, hx |-> 0, nul |-> 0, soft |-> 0, ne |-> 0, hm |-> 1, al |-> 0, d |-> 1000, hd |-> 1, mn |-> 250, mx |-> 1000, md |-> 900],
-  [n |-> "graph.decay.half_life_turns", k |-> "int", sec |-> 31, hl |-> 1, lv |-> 1000, lx |-> 0, hh |-> 0, hv |-> 0, hx |-> 0, nul |-> 0, soft |-> 0, ne |-> 0, hm |-> 1, al |-> 0, d |-> 200000, hd |-> 1, mn |-> 1000, mx |-> 1000000, md |-> 200000],
-  [n |-> "graph.decay.floor", k |-> "float", sec |-> 31, hl |-> 1, lv |-> 0, lx |-> 0, hh |-> 0, hv |-> 0, hx |-> 0, nul |-> 0, soft |-> 0, ne |-> 0, hm |-> 1, al |-> 0, d |-> 0, hd |-> 1, mn |-> 0, mx |-> 250, md |-> 10],
-  [n |-> "graph.merge.enabled", k |-> "bool", sec |-> 32, hl |-> 0, lv |-> 0, lx |-> 0, hh |-> 0, hv |-> 0, hx |-> 0, nul |-> 0, soft |-> 0, ne |-> 0, hm |-> 0, al |-> 0, d |-> 0, hd |-> 1, mn |-> 0, mx |-> 1000, md |-> 0],
-  [n |-> "graph.merge.min_size", k |-> "int", sec |-> 32, hl |-> 1, lv |-> 2000, lx |-> 0, hh |-> 0, hv |-> 0, hx |-> 0, nul |-> 0, soft |-> 0, ne |-> 0, hm |-> 1, al |-> 0, d |-> 3000, hd |-> 1, mn |-> 2000, mx |-> 64000, md |-> 3000],
-  [n |-> "graph.merge.min_avg_w", k |-> "float", sec |-> 32, hl |-> 1, lv |-> 0, lx |-> 0, hh |-> 1, hv |-> 1000, hx |-> 0, nul |-> 0, soft |-> 0, ne |-> 0, hm |-> 1, al |-> 0, d |-> 200, hd |-> 1, mn |-> 125, mx |-> 1000, md |-> 200],
-  [n |-> "graph.merge.max_diameter", k |-> "int", sec |-> 32, hl |-> 1, lv |-> 1000, lx |-> 0, hh |-> 0, hv |-> 0, hx |-> 0, nul |-> 0, soft |-> 0, ne |-> 0, hm |-> 1, al |-> 0, d |-> 2000, hd |-> 1, mn |-> 1000, mx |-> 64000, md |-> 2000],
-  [n |-> "graph.merge.cap_per_turn", k |-> "int", sec |-> 32, hl |-> 1, lv |-> 0, lx |-> 0, hh |-> 0, hv |-> 0, hx |-> 0, nul |-> 0, soft |-> 0, ne |-> 0, hm |-> 1, al |-> 0, d |-> 4000, hd |-> 1, mn |-> 0, mx |-> 64000, md |-> 4000],
-  [n |-> "graph.split.enabled", k |-> "bool", sec |-> 33, hl |-> 0, lv |-> 0, lx |-> 0, hh |-> 0, hv |-> 0, hx |-> 0, nul |-> 0, soft |-> 0, ne |-> 0, hm |-> 0, al |-> 0, d |-> 0, hd |-> 1, mn |-> 0, mx |-> 1000, md |-> 0],
-  [n |-> "graph.split.weak_edge_thresh", k |-> "float", sec |-> 33, hl |-> 1, lv |-> 0, lx |-> 0, hh |-> 1, hv |-> 1000, hx |-> 0, nul |-> 0, soft |-> 0, ne |-> 0, hm |-> 1, al |-> 0, d |-> 50, hd |-> 1, mn |-> 0, mx |-> 125, md |-> 50],
-  [n |-> "graph.split.min_component_size", k |-> "int", sec |-> 33, hl |-> 1, lv |-> 2000, lx |-> 0, hh |-> 0, hv |-> 0, hx |-> 0, nul |-> 0, soft |-> 0, ne |-> 0, hm |-> 1, al |-> 0, d |-> 2000, hd |-> 1, mn |-> 2000, mx |-> 64000, md |-> 3000],
-  [n |-> "graph.split.cap_per_turn", k |-> "int", sec |-> 33, hl |-> 1, lv |-> 0, lx |-> 0, hh |-> 0, hv |-> 0, hx |-> 0, nul |-> 0, soft |-> 0, ne |-> 0, hm |-> 1, al |-> 0, d |-> 4000, hd |-> 1, mn |-> 0, mx |-> 64000, md |-> 4000],
-  [n |-> "graph.promotion.enabled", k |-> "bool", sec |-> 34, hl |-> 0, lv |-> 0, lx |-> 0, hh |-> 0, hv |-> 0, hx |-> 0, nul |-> 0, soft |-> 0, ne |-> 0, hm |-> 0, al |-> 0, d |-> 0, hd |-> 1, mn |-> 0, mx |-> 1000, md |-> 0],
-  [n |-> "graph.promotion.label_mode", k |-> "enum", sec |-> 34, hl |-> 0, lv |-> 0, lx |-> 0, hh |-> 0, hv |-> 0, hx |-> 0, nul |-> 0, soft |-> 0, ne |-> 0, hm |-> 0, al |-> 0, d |-> 1000, hd |-> 1, mn |-> 1000, mx |-> 2000, md |-> 0],
-  [n |-> "graph.promotion.topk_label_ids", k |-> "int", sec |-> 34, hl |-> 1, lv |-> 1000, lx |-> 0, hh |-> 0, hv |-> 0, hx |-> 0, nul |-> 0, soft |-> 0, ne |-> 0, hm |-> 1, al |-> 0, d |-> 3000, hd |-> 1, mn |-> 1000, mx |-> 64000, md |-> 3000],
-  [n |-> "graph.promotion.attach_weight", k |-> "float", sec |-> 34, hl |-> 1, lv |-> -1000, lx |-> 0, hh |-> 1, hv |-> 1000, hx |-> 0, nul |-> 0, soft |-> 0, ne |-> 0, hm |-> 1, al |-> 0, d |-> 500, hd |-> 1, mn |-> -1000, mx |-> 1000, md |-> 500],
-  [n |-> "graph.promotion.cap_per_turn", k |-> "int", sec |-> 34, hl |-> 1, lv |-> 0, lx |-> 0, hh |-> 0, hv |-> 0, hx |-> 0, nul |-> 0, soft |-> 0, ne |-> 0, hm |-> 1, al |-> 0, d |-> 2000, hd |-> 1, mn |-> 0, mx |-> 64000, md |-> 2000],
-  [n |-> "scheduler.enabled", k |-> "bool", sec |-> 35, hl |-> 0, lv |-> 0, lx |-> 0, hh |-> 0, hv |-> 0, hx |-> 0, nul |-> 0, soft |-> 0, ne |-> 0, hm |-> 0, al |-> 0, d |-> 0, hd |-> 1, mn |-> 0, mx |-> 1000, md |-> 0],
-  [n |-> "scheduler.policy", k |-> "enum", sec |-> 35, hl |-> 0, lv |-> 0, lx |-> 0, hh |-> 0, hv |-> 0, hx |-> 0, nul |-> 0, soft |-> 0, ne |-> 0, hm |-> 0, al |-> 0, d |-> 1000, hd |-> 1, mn |-> 1000, mx |-> 2000, md |-> 0],
-  [n |-> "scheduler.quantum_ms", k |-> "int", sec |-> 35, hl |-> 1, lv |-> 1000, lx |-> 0, hh |-> 0, hv |-> 0, hx |-> 0, nul |-> 0, soft |-> 0, ne |-> 0, hm |-> 1, al |-> 0, d |-> 20000, hd |-> 1, mn |-> 1000, mx |-> 200000, md |-> 20000],
-  [n |-> "scheduler.budgets.t1_pops", k |-> "int", sec |-> 36, hl |-> 1, lv |-> 0, lx |-> 0, hh |-> 0, hv |-> 0, hx |-> 0, nul |-> 1, soft |-> 0, ne |-> 0, hm |-> 1, al |-> 0, d |-> 0, hd |-> 0, mn |-> 0, mx |-> 1000000, md |-> 10000],
-  [n |-> "scheduler.budgets.t1_iters", k |-> "int", sec |-> 36, hl |-> 1, lv |-> 0, lx |-> 0, hh |-> 0, hv |-> 0, hx |-> 0, nul |-> 1, soft |-> 0, ne |-> 0, hm |-> 1, al |-> 0, d |-> 50000, hd |-> 1, mn |-> 0, mx |-> 1000000, md |-> 50000],
-  [n |-> "scheduler.budgets.t2_k", k |-> "int", sec |-> 36, hl |-> 1, lv |-> 0, lx |-> 0, hh |-> 0, hv |-> 0, hx |-> 0, nul |-> 1, soft |-> 0, ne |-> 0, hm |-> 1, al |-> 0, d |-> 64000, hd |-> 1, mn |-> 0, mx |-> 1000000, md |-> 64000],
-  [n |-> "scheduler.budgets.t3_ops", k |-> "int", sec |-> 36, hl |-> 1, lv |-> 0, lx |-> 0, hh |-> 0, hv |-> 0, hx |-> 0, nul |-> 1, soft |-> 0, ne |-> 0, hm |-> 1, al |-> 0, d |-> 3000, hd |-> 1, mn |-> 0, mx |-> 1000000, md |-> 3000],
-  [n |-> "scheduler.budgets.time_ms_reflection", k |-> "int", sec |-> 36, hl |-> 1, lv |-> 1000, lx |-> 0, hh |-> 0, hv |-> 0, hx |-> 0, nul |-> 1, soft |-> 0, ne |-> 0, hm |-> 1, al |-> 0, d |-> 6000000, hd |-> 1, mn |-> 1000, mx |-> 100000000, md |-> 6000000],
-  [n |-> "scheduler.budgets.ops_reflection", k |-> "int", sec |-> 36, hl |-> 1, lv |-> 0, lx |-> 0, hh |-> 0, hv |-> 0, hx |-> 0, nul |-> 1, soft |-> 0, ne |-> 0, hm |-> 1, al |-> 0, d |-> 5000, hd |-> 1, mn |-> 0, mx |-> 1000000, md |-> 5000],
-  [n |-> "scheduler.budgets.wall_ms", k |-> "int", sec |-> 36, hl |-> 1, lv |-> 1000, lx |-> 0, hh |-> 0, hv |-> 0, hx |-> 0, nul |-> 1, soft |-> 0, ne |-> 0, hm |-> 1, al |-> 0, d |-> 200000, hd |-> 1, mn |-> 200000, mx |-> 100000000, md |-> 400000],
-  [n |-> "scheduler.fairness.max_consecutive_turns", k |-> "int", sec |-> 37, hl |-> 1, lv |-> 1000, lx |-> 0, hh |-> 0, hv |-> 0, hx |-> 0, nul |-> 0, soft |-> 0, ne |-> 0, hm |-> 1, al |-> 0, d |-> 1000, hd |-> 1, mn |-> 1000, mx |-> 64000, md |-> 2000],
-  [n |-> "scheduler.fairness.aging_ms", k |-> "int", sec |-> 37, hl |-> 1, lv |-> 0, lx |-> 0, hh |-> 0, hv |-> 0, hx |-> 0, nul |-> 0, soft |-> 0, ne |-> 0, hm |-> 1, al |-> 0, d |-> 200000, hd |-> 1, mn |-> 0, mx |-> 1000000, md |-> 200000],
-  [n |-> "perf.enabled", k |-> "bool", sec |-> 38, hl |-> 0, lv |-> 0, lx |-> 0, hh |-> 0, hv |-> 0, hx |-> 0, nul |-> 0, soft |-> 0, ne |-> 0, hm |-> 0, al |-> 0, d |-> 0, hd |-> 1, mn |-> 0, mx |-> 1000, md |-> 0],
-  [n |-> "perf.t1.queue_cap", k |-> "int", sec |-> 39, hl |-> 1, lv |-> 1000, lx |-> 0, hh |-> 0, hv |-> 0, hx |-> 0, nul |-> 0, soft |-> 0, ne |-> 0, hm |-> 1, al |-> 0, d |-> 0, hd |-> 0, mn |-> 1000, mx |-> 100000000, md |-> 10000000],
-  [n |-> "perf.t1.dedupe_window", k |-> "int", sec |-> 39, hl |-> 1, lv |-> 1000, lx |-> 0, hh |-> 0, hv |-> 0, hx |-> 0, nul |-> 0, soft |-> 0, ne |-> 0, hm |-> 1, al |-> 0, d |-> 0, hd |-> 0, mn |-> 1000, mx |-> 100000000, md |-> 8192000],
-  [n |-> "perf.t1.cache.max_entries", k |-> "int", sec |-> 40, hl |-> 1, lv |-> 0, lx |-> 0, hh |-> 0, hv |-> 0, hx |-> 0, nul |-> 0, soft |-> 0, ne |-> 0, hm |-> 1, al |-> 0, d |-> 0, hd |-> 0, mn |-> 0, mx |-> 1000000, md |-> 512000],
-  [n |-> "perf.t1.cache.max_bytes", k |-> "int", sec |-> 40, hl |-> 1, lv |-> 0, lx |-> 0, hh |-> 0, hv |-> 0, hx |-> 0, nul |-> 0, soft |-> 0, ne |-> 0, hm |-> 1, al |-> 0, d |-> 0, hd |-> 0, mn |-> 0, mx |-> 1000000000, md |-> 64000000],
-  [n |-> "perf.t1.caps.frontier", k |-> "int", sec |-> 41, hl |-> 1, lv |-> 1000, lx |-> 0, hh |-> 0, hv |-> 0, hx |-> 0, nul |-> 0, soft |-> 0, ne |-> 0, hm |-> 1, al |-> 0, d |-> 0, hd |-> 0, mn |-> 1000, mx |-> 100000000, md |-> 100000],
-  [n |-> "perf.t1.caps.visited", k |-> "int", sec |-> 41, hl |-> 1, lv |-> 1000, lx |-> 0, hh |-> 0, hv |-> 0, hx |-> 0, nul |-> 0, soft |-> 0, ne |-> 0, hm |-> 1, al |-> 0, d |-> 0, hd |-> 0, mn |-> 1000, mx |-> 100000000, md |-> 100000],
-  [n |-> "perf.t2.embed_dtype", k |-> "enum", sec |-> 42, hl |-> 0, lv |-> 0, lx |-> 0, hh |-> 0, hv |-> 0, hx |-> 0, nul |-> 0, soft |-> 0, ne |-> 0, hm |-> 0, al |-> 0, d |-> 0, hd |-> 0, mn |-> 1000, mx |-> 2000, md |-> 0],
-  [n |-> "perf.t2.embed_store_dtype", k |-> "enum", sec |-> 42, hl |-> 0, lv |-> 0, lx |-> 0, hh |-> 0, hv |-> 0, hx |-> 0, nul |-> 0, soft |-> 0, ne |-> 0, hm |-> 0, al |-> 0, d |-> 0, hd |-> 0, mn |-> 1000, mx |-> 2000, md |-> 0],
-  [n |-> "perf.t2.precompute_norms", k |-> "bool", sec |-> 42, hl |-> 0, lv |-> 0, lx |-> 0, hh |-> 0, hv |-> 0, hx |-> 0, nul |-> 0, soft |-> 0, ne |-> 0, hm |-> 0, al |-> 0, d |-> 0, hd |-> 0, mn |-> 0, mx |-> 1000, md |-> 0],
-  [n |-> "perf.t2.cache.max_entries", k |-> "int", sec |-> 43, hl |-> 1, lv |-> 0, lx |-> 0, hh |-> 0, hv |-> 0, hx |-> 0, nul |-> 0, soft |-> 0, ne |-> 0, hm |-> 1, al |-> 0, d |-> 0, hd |-> 0, mn |-> 0, mx |-> 1000000, md |-> 512000],
-  [n |-> "perf.t2.cache.max_bytes", k |-> "int", sec |-> 43, hl |-> 1, lv |-> 0, lx |-> 0, hh |-> 0, hv |-> 0, hx |-> 0, nul |-> 0, soft |-> 0, ne |-> 0, hm |-> 1, al |-> 0, d |-> 0, hd |-> 0, mn |-> 0, mx |-> 1000000000, md |-> 128000000],
-  [n |-> "perf.t2.reader.partitions.enabled", k |-> "bool", sec |-> 45, hl |-> 0, lv |-> 0, lx |-> 0, hh |-> 0, hv |-> 0, hx |-> 0, nul |-> 0, soft |-> 0, ne |-> 0, hm |-> 0, al |-> 0, d |-> 0, hd |-> 0, mn |-> 0, mx |-> 1000, md |-> 0],
-  [n |-> "perf.t2.reader.partitions.layout", k |-> "enum", sec |-> 45, hl |-> 0, lv |-> 0, lx |-> 0, hh |-> 0, hv |-> 0, hx |-> 0, nul |-> 0, soft |-> 0, ne |-> 0, hm |-> 0, al |-> 0, d |-> 0, hd |-> 0, mn |-> 1000, mx |-> 2000, md |-> 0],
-  [n |-> "perf.t2.reader.partitions.path", k |-> "str", sec |-> 45, hl |-> 0, lv |-> 0, lx |-> 0, hh |-> 0, hv |-> 0, hx |-> 0, nul |-> 0, soft |-> 0, ne |-> 1, hm |-> 1, al |-> 0, d |-> 0, hd |-> 0, mn |-> 1000, mx |-> 1000, md |-> 1000],
-  [n |-> "perf.t2.reader.partitions.by", k |-> "list", sec |-> 45, hl |-> 0, lv |-> 0, lx |-> 0, hh |-> 1, hv |-> 0, hx |-> 0, nul |-> 0, soft |-> 0, ne |-> 1, hm |-> 1, al |-> 0, d |-> 0, hd |-> 0, mn |-> 1000, mx |-> 1000, md |-> 1000],
-  [n |-> "perf.snapshots.compression", k |-> "enum", sec |-> 46, hl |-> 0, lv |-> 0, lx |-> 0, hh |-> 0, hv |-> 0, hx |-> 0, nul |-> 0, soft |-> 0, ne |-> 0, hm |-> 0, al |-> 0, d |-> 0, hd |-> 0, mn |-> 1000, mx |-> 2000, md |-> 0],
-  [n |-> "perf.snapshots.level", k |-> "int", sec |-> 46, hl |-> 1, lv |-> 1000, lx |-> 0, hh |-> 1, hv |-> 19000, hx |-> 0, nul |-> 0, soft |-> 0, ne |-> 0, hm |-> 1, al |-> 0, d |-> 0, hd |-> 0, mn |-> 1000, mx |-> 19000, md |-> 3000],
-  [n |-> "perf.snapshots.delta_mode", k |-> "bool", sec |-> 46, hl |-> 0, lv |-> 0, lx |-> 0, hh |-> 0, hv |-> 0, hx |-> 0, nul |-> 0, soft |-> 0, ne |-> 0, hm |-> 0, al |-> 0, d |-> 0, hd |-> 0, mn |-> 0, mx |-> 1000, md |-> 0],
-  [n |-> "perf.snapshots.every_n_turns", k |-> "int", sec |-> 46, hl |-> 1, lv |-> 1000, lx |-> 0, hh |-> 0, hv |-> 0, hx |-> 0, nul |-> 0, soft |-> 0, ne |-> 0, hm |-> 1, al |-> 0, d |-> 0, hd |-> 0, mn |-> 1000, mx |-> 64000, md |-> 2000],
-  [n |-> "perf.metrics.report_memory", k |-> "bool", sec |-> 47, hl |-> 0, lv |-> 0, lx |-> 0, hh |-> 0, hv |-> 0, hx |-> 0, nul |-> 0, soft |-> 0, ne |-> 0, hm |-> 0, al |-> 0, d |-> 0, hd |-> 1, mn |-> 0, mx |-> 1000, md |-> 0],
-  [n |-> "perf.parallel.enabled", k |-> "bool", sec |-> 48, hl |-> 0, lv |-> 0, lx |-> 0, hh |-> 0, hv |-> 0, hx |-> 0, nul |-> 0, soft |-> 0, ne |-> 0, hm |-> 0, al |-> 0, d |-> 0, hd |-> 1, mn |-> 0, mx |-> 1000, md |-> 0],
-  [n |-> "perf.parallel.max_workers", k |-> "int", sec |-> 48, hl |-> 0, lv |-> 0, lx |-> 0, hh |-> 0, hv |-> 0, hx |-> 0, nul |-> 0, soft |-> 0, ne |-> 0, hm |-> 1, al |-> 0, d |-> 0, hd |-> 1, mn |-> -3000, mx |-> 4000, md |-> 1000],
-  [n |-> "perf.parallel.t1", k |-> "bool", sec |-> 48, hl |-> 0, lv |-> 0, lx |-> 0, hh |-> 0, hv |-> 0, hx |-> 0, nul |-> 0, soft |-> 0, ne |-> 0, hm |-> 0, al |-> 0, d |-> 0, hd |-> 0, mn |-> 0, mx |-> 1000, md |-> 0],
-  [n |-> "perf.parallel.t2", k |-> "bool", sec |-> 48, hl |-> 0, lv |-> 0, lx |-> 0, hh |-> 0, hv |-> 0, hx |-> 0, nul |-> 0, soft |-> 0, ne |-> 0, hm |-> 0, al |-> 0, d |-> 0, hd |-> 0, mn |-> 0, mx |-> 1000, md |-> 0],
-  [n |-> "perf.parallel.agents", k |-> "bool", sec |-> 48, hl |-> 0, lv |-> 0, lx |-> 0, hh |-> 0, hv |-> 0, hx |-> 0, nul |-> 0, soft |-> 0, ne |-> 0, hm |-> 0, al |-> 0, d |-> 0, hd |-> 0, mn |-> 0, mx |-> 1000, md |-> 0]
+  [n |-> "version", k |-> "enum", sec |-> 1, hl |-> 0, lv |-> 0, lx |-> 0, hh |-> 0, hv |-> 0, hx |-> 0, nul |-> 0, soft |-> 0, ne |-> 0, hm |-> 0, al |-> 0, st |-> 0, cap |-> 0, d |-> 1000, hd |-> 1, mn |-> 1000, mx |-> 1000, md |-> 0],
+  [n |-> "k_surface", k |-> "int", sec |-> 1, hl |-> 1, lv |-> 1000, lx |-> 0, hh |-> 0, hv |-> 0, hx |-> 0, nul |-> 0, soft |-> 0, ne |-> 0, hm |-> 1, al |-> 0, st |-> 1, cap |-> 1, d |-> 32000, hd |-> 1, mn |-> 1000, mx |-> 64000, md |-> 32000],
+  [n |-> "surface_method", k |-> "enum", sec |-> 1, hl |-> 0, lv |-> 0, lx |-> 0, hh |-> 0, hv |-> 0, hx |-> 0, nul |-> 0, soft |-> 1, ne |-> 0, hm |-> 0, al |-> 0, st |-> 0, cap |-> 0, d |-> 1000, hd |-> 1, mn |-> 1000, mx |-> 2000, md |-> 0],
+  [n |-> "budgets.time_ms", k |-> "int", sec |-> 49, hl |-> 0, lv |-> 0, lx |-> 0, hh |-> 0, hv |-> 0, hx |-> 0, nul |-> 0, soft |-> 1, ne |-> 0, hm |-> 1, al |-> 0, st |-> 0, cap |-> 0, d |-> 0, hd |-> 0, mn |-> 1000, mx |-> 100000000, md |-> 1000000],
+  [n |-> "budgets.ops", k |-> "int", sec |-> 49, hl |-> 0, lv |-> 0, lx |-> 0, hh |-> 0, hv |-> 0, hx |-> 0, nul |-> 0, soft |-> 1, ne |-> 0, hm |-> 1, al |-> 0, st |-> 0, cap |-> 0, d |-> 0, hd |-> 0, mn |-> 1000, mx |-> 100000000, md |-> 1000000],
+  [n |-> "budgets.tokens", k |-> "int", sec |-> 49, hl |-> 0, lv |-> 0, lx |-> 0, hh |-> 0, hv |-> 0, hx |-> 0, nul |-> 0, soft |-> 1, ne |-> 0, hm |-> 1, al |-> 0, st |-> 0, cap |-> 0, d |-> 0, hd |-> 0, mn |-> 1000, mx |-> 100000000, md |-> 1024000],
+  [n |-> "budgets.time_ms_reflection", k |-> "int", sec |-> 49, hl |-> 0, lv |-> 0, lx |-> 0, hh |-> 0, hv |-> 0, hx |-> 0, nul |-> 0, soft |-> 1, ne |-> 0, hm |-> 1, al |-> 0, st |-> 0, cap |-> 0, d |-> 0, hd |-> 0, mn |-> 1000, mx |-> 100000000, md |-> 6000000],
+  [n |-> "flags.enable_world_memory", k |-> "bool", sec |-> 50, hl |-> 0, lv |-> 0, lx |-> 0, hh |-> 0, hv |-> 0, hx |-> 0, nul |-> 0, soft |-> 1, ne |-> 0, hm |-> 0, al |-> 0, st |-> 0, cap |-> 0, d |-> 0, hd |-> 0, mn |-> 0, mx |-> 1000, md |-> 0],
+  [n |-> "flags.allow_reflection", k |-> "bool", sec |-> 50, hl |-> 0, lv |-> 0, lx |-> 0, hh |-> 0, hv |-> 0, hx |-> 0, nul |-> 0, soft |-> 1, ne |-> 0, hm |-> 0, al |-> 0, st |-> 0, cap |-> 0, d |-> 0, hd |-> 0, mn |-> 0, mx |-> 1000, md |-> 0],
+  [n |-> "t1.cache.enabled", k |-> "bool", sec |-> 3, hl |-> 0, lv |-> 0, lx |-> 0, hh |-> 0, hv |-> 0, hx |-> 0, nul |-> 0, soft |-> 1, ne |-> 0, hm |-> 0, al |-> 0, st |-> 0, cap |-> 0, d |-> 0, hd |-> 0, mn |-> 0, mx |-> 1000, md |-> 0],
+  [n |-> "t1.cache.max_entries", k |-> "int", sec |-> 3, hl |-> 1, lv |-> 0, lx |-> 0, hh |-> 0, hv |-> 0, hx |-> 0, nul |-> 0, soft |-> 0, ne |-> 0, hm |-> 1, al |-> 0, st |-> 0, cap |-> 0, d |-> 512000, hd |-> 1, mn |-> 0, mx |-> 1000000, md |-> 500000],
+  [n |-> "t1.cache.ttl_s", k |-> "int", sec |-> 3, hl |-> 1, lv |-> 0, lx |-> 0, hh |-> 0, hv |-> 0, hx |-> 0, nul |-> 0, soft |-> 0, ne |-> 0, hm |-> 1, al |-> 0, st |-> 0, cap |-> 0, d |-> 300000, hd |-> 1, mn |-> 0, mx |-> 1000000, md |-> 500000],
+  [n |-> "t1.cache.ttl_sec", k |-> "int", sec |-> 3, hl |-> 1, lv |-> 0, lx |-> 0, hh |-> 0, hv |-> 0, hx |-> 0, nul |-> 0, soft |-> 0, ne |-> 0, hm |-> 1, al |-> 12, st |-> 0, cap |-> 0, d |-> 0, hd |-> 0, mn |-> 0, mx |-> 1000000, md |-> 500000],
+  [n |-> "t1.iter_cap", k |-> "int", sec |-> 2, hl |-> 1, lv |-> 0, lx |-> 0, hh |-> 0, hv |-> 0, hx |-> 0, nul |-> 0, soft |-> 0, ne |-> 0, hm |-> 1, al |-> 0, st |-> 0, cap |-> 0, d |-> 0, hd |-> 0, mn |-> 0, mx |-> 1000000, md |-> 50000],
+  [n |-> "t1.queue_budget", k |-> "int", sec |-> 2, hl |-> 1, lv |-> 0, lx |-> 0, hh |-> 0, hv |-> 0, hx |-> 0, nul |-> 0, soft |-> 0, ne |-> 0, hm |-> 1, al |-> 0, st |-> 0, cap |-> 0, d |-> 0, hd |-> 0, mn |-> 0, mx |-> 100000000, md |-> 10000000],
+  [n |-> "t1.node_budget", k |-> "float", sec |-> 2, hl |-> 1, lv |-> 0, lx |-> 1, hh |-> 0, hv |-> 0, hx |-> 0, nul |-> 0, soft |-> 0, ne |-> 0, hm |-> 1, al |-> 0, st |-> 0, cap |-> 0, d |-> 0, hd |-> 0, mn |-> 1, mx |-> 1000000, md |-> 1500],
+  [n |-> "t1.radius_cap", k |-> "int", sec |-> 2, hl |-> 1, lv |-> 0, lx |-> 0, hh |-> 0, hv |-> 0, hx |-> 0, nul |-> 0, soft |-> 0, ne |-> 0, hm |-> 1, al |-> 0, st |-> 1, cap |-> 0, d |-> 0, hd |-> 0, mn |-> 0, mx |-> 64000, md |-> 4000],
+  [n |-> "t1.decay.mode", k |-> "enum", sec |-> 4, hl |-> 0, lv |-> 0, lx |-> 0, hh |-> 0, hv |-> 0, hx |-> 0, nul |-> 0, soft |-> 0, ne |-> 0, hm |-> 0, al |-> 0, st |-> 0, cap |-> 0, d |-> 0, hd |-> 0, mn |-> 1000, mx |-> 2000, md |-> 0],
+  [n |-> "t1.decay.rate", k |-> "float", sec |-> 4, hl |-> 1, lv |-> 0, lx |-> 0, hh |-> 1, hv |-> 1000, hx |-> 0, nul |-> 0, soft |-> 0, ne |-> 0, hm |-> 1, al |-> 0, st |-> 1, cap |-> 0, d |-> 0, hd |-> 0, mn |-> 0, mx |-> 1000, md |-> 600],
+  [n |-> "t1.decay.floor", k |-> "float", sec |-> 4, hl |-> 1, lv |-> 0, lx |-> 0, hh |-> 1, hv |-> 1000, hx |-> 0, nul |-> 0, soft |-> 0, ne |-> 0, hm |-> 1, al |-> 0, st |-> 1, cap |-> 0, d |-> 0, hd |-> 0, mn |-> 0, mx |-> 1000, md |-> 50],
+  [n |-> "t1.decay.alpha", k |-> "float", sec |-> 4, hl |-> 1, lv |-> 0, lx |-> 0, hh |-> 0, hv |-> 0, hx |-> 0, nul |-> 0, soft |-> 0, ne |-> 0, hm |-> 1, al |-> 0, st |-> 1, cap |-> 0, d |-> 0, hd |-> 0, mn |-> 0, mx |-> 10000, md |-> 800],
+  [n |-> "t1.edge_type_mult", k |-> "map", sec |-> 2, hl |-> 0, lv |-> 0, lx |-> 0, hh |-> 0, hv |-> 0, hx |-> 0, nul |-> 0, soft |-> 0, ne |-> 0, hm |-> 1, al |-> 0, st |-> 1, cap |-> 0, d |-> 0, hd |-> 0, mn |-> 1000, mx |-> 1000, md |-> 1000],
+  [n |-> "t2.backend", k |-> "enum", sec |-> 6, hl |-> 0, lv |-> 0, lx |-> 0, hh |-> 0, hv |-> 0, hx |-> 0, nul |-> 0, soft |-> 0, ne |-> 0, hm |-> 0, al |-> 0, st |-> 0, cap |-> 0, d |-> 1000, hd |-> 1, mn |-> 1000, mx |-> 2000, md |-> 0],
+  [n |-> "t2.k_retrieval", k |-> "int", sec |-> 6, hl |-> 1, lv |-> 1000, lx |-> 0, hh |-> 0, hv |-> 0, hx |-> 0, nul |-> 0, soft |-> 0, ne |-> 0, hm |-> 1, al |-> 0, st |-> 0, cap |-> 0, d |-> 10000, hd |-> 1, mn |-> 1000, mx |-> 1000000, md |-> 64000],
+  [n |-> "t2.sim_threshold", k |-> "float", sec |-> 6, hl |-> 1, lv |-> -1000, lx |-> 0, hh |-> 1, hv |-> 1000, hx |-> 0, nul |-> 0, soft |-> 0, ne |-> 0, hm |-> 1, al |-> 0, st |-> 0, cap |-> 0, d |-> 0, hd |-> 1, mn |-> -1000, mx |-> 1000, md |-> 300],
+  [n |-> "t2.tiers", k |-> "list", sec |-> 6, hl |-> 0, lv |-> 0, lx |-> 0, hh |-> 0, hv |-> 0, hx |-> 0, nul |-> 0, soft |-> 0, ne |-> 0, hm |-> 1, al |-> 0, st |-> 0, cap |-> 0, d |-> 0, hd |-> 0, mn |-> 1000, mx |-> 1000, md |-> 1000],
+  [n |-> "t2.exact_recent_days", k |-> "int", sec |-> 6, hl |-> 1, lv |-> 0, lx |-> 0, hh |-> 0, hv |-> 0, hx |-> 0, nul |-> 0, soft |-> 0, ne |-> 0, hm |-> 1, al |-> 0, st |-> 1, cap |-> 1, d |-> 0, hd |-> 0, mn |-> 0, mx |-> 3650000, md |-> 30000],
+  [n |-> "t2.clusters_top_m", k |-> "int", sec |-> 6, hl |-> 1, lv |-> 1000, lx |-> 0, hh |-> 0, hv |-> 0, hx |-> 0, nul |-> 0, soft |-> 0, ne |-> 0, hm |-> 1, al |-> 0, st |-> 1, cap |-> 1, d |-> 0, hd |-> 0, mn |-> 1000, mx |-> 64000, md |-> 3000],
+  [n |-> "t2.owner_scope", k |-> "enum", sec |-> 6, hl |-> 0, lv |-> 0, lx |-> 0, hh |-> 0, hv |-> 0, hx |-> 0, nul |-> 0, soft |-> 1, ne |-> 0, hm |-> 1, al |-> 0, st |-> 0, cap |-> 0, d |-> 0, hd |-> 0, mn |-> 1000, mx |-> 3000, md |-> 2000],
+  [n |-> "t2.residual_cap_per_turn", k |-> "int", sec |-> 6, hl |-> 1, lv |-> 0, lx |-> 0, hh |-> 0, hv |-> 0, hx |-> 0, nul |-> 0, soft |-> 0, ne |-> 0, hm |-> 1, al |-> 0, st |-> 1, cap |-> 1, d |-> 0, hd |-> 0, mn |-> 0, mx |-> 1000000, md |-> 32000],
+  [n |-> "t2.reader_batch", k |-> "int", sec |-> 6, hl |-> 1, lv |-> 1000, lx |-> 0, hh |-> 0, hv |-> 0, hx |-> 0, nul |-> 0, soft |-> 0, ne |-> 0, hm |-> 1, al |-> 0, st |-> 0, cap |-> 0, d |-> 0, hd |-> 0, mn |-> 1000, mx |-> 100000000, md |-> 8192000],
+  [n |-> "t2.embed_root", k |-> "str", sec |-> 6, hl |-> 0, lv |-> 0, lx |-> 0, hh |-> 0, hv |-> 0, hx |-> 0, nul |-> 0, soft |-> 0, ne |-> 1, hm |-> 1, al |-> 0, st |-> 0, cap |-> 0, d |-> 0, hd |-> 0, mn |-> 1000, mx |-> 1000, md |-> 1000],
+  [n |-> "t2.cache.enabled", k |-> "bool", sec |-> 7, hl |-> 0, lv |-> 0, lx |-> 0, hh |-> 0, hv |-> 0, hx |-> 0, nul |-> 0, soft |-> 1, ne |-> 0, hm |-> 0, al |-> 0, st |-> 0, cap |-> 0, d |-> 0, hd |-> 0, mn |-> 0, mx |-> 1000, md |-> 0],
+  [n |-> "t2.cache.max_entries", k |-> "int", sec |-> 7, hl |-> 1, lv |-> 0, lx |-> 0, hh |-> 0, hv |-> 0, hx |-> 0, nul |-> 0, soft |-> 0, ne |-> 0, hm |-> 1, al |-> 0, st |-> 0, cap |-> 0, d |-> 512000, hd |-> 1, mn |-> 0, mx |-> 1000000, md |-> 500000],
+  [n |-> "t2.cache.ttl_s", k |-> "int", sec |-> 7, hl |-> 1, lv |-> 0, lx |-> 0, hh |-> 0, hv |-> 0, hx |-> 0, nul |-> 0, soft |-> 0, ne |-> 0, hm |-> 1, al |-> 0, st |-> 0, cap |-> 0, d |-> 300000, hd |-> 1, mn |-> 0, mx |-> 1000000, md |-> 500000],
+  [n |-> "t2.cache.ttl_sec", k |-> "int", sec |-> 7, hl |-> 1, lv |-> 0, lx |-> 0, hh |-> 0, hv |-> 0, hx |-> 0, nul |-> 0, soft |-> 0, ne |-> 0, hm |-> 1, al |-> 35, st |-> 0, cap |-> 0, d |-> 0, hd |-> 0, mn |-> 0, mx |-> 1000000, md |-> 500000],
+  [n |-> "t2.ranking.alpha_sim", k |-> "float", sec |-> 8, hl |-> 1, lv |-> 0, lx |-> 0, hh |-> 1, hv |-> 1000, hx |-> 0, nul |-> 0, soft |-> 0, ne |-> 0, hm |-> 1, al |-> 0, st |-> 0, cap |-> 0, d |-> 1000, hd |-> 1, mn |-> 0, mx |-> 1000, md |-> 750],
+  [n |-> "t2.ranking.beta_recency", k |-> "float", sec |-> 8, hl |-> 1, lv |-> 0, lx |-> 0, hh |-> 1, hv |-> 1000, hx |-> 0, nul |-> 0, soft |-> 0, ne |-> 0, hm |-> 1, al |-> 0, st |-> 0, cap |-> 0, d |-> 0, hd |-> 1, mn |-> 0, mx |-> 1000, md |-> 200],
+  [n |-> "t2.ranking.gamma_importance", k |-> "float", sec |-> 8, hl |-> 1, lv |-> 0, lx |-> 0, hh |-> 1, hv |-> 1000, hx |-> 0, nul |-> 0, soft |-> 0, ne |-> 0, hm |-> 1, al |-> 0, st |-> 0, cap |-> 0, d |-> 0, hd |-> 1, mn |-> 0, mx |-> 1000, md |-> 50],
+  [n |-> "t2.hybrid.enabled", k |-> "bool", sec |-> 9, hl |-> 0, lv |-> 0, lx |-> 0, hh |-> 0, hv |-> 0, hx |-> 0, nul |-> 0, soft |-> 0, ne |-> 0, hm |-> 0, al |-> 0, st |-> 0, cap |-> 0, d |-> 0, hd |-> 1, mn |-> 0, mx |-> 1000, md |-> 0],
+  [n |-> "t2.hybrid.use_graph", k |-> "bool", sec |-> 9, hl |-> 0, lv |-> 0, lx |-> 0, hh |-> 0, hv |-> 0, hx |-> 0, nul |-> 0, soft |-> 0, ne |-> 0, hm |-> 0, al |-> 0, st |-> 0, cap |-> 0, d |-> 1000, hd |-> 1, mn |-> 0, mx |-> 1000, md |-> 0],
+  [n |-> "t2.hybrid.anchor_top_m", k |-> "int", sec |-> 9, hl |-> 1, lv |-> 1000, lx |-> 0, hh |-> 0, hv |-> 0, hx |-> 0, nul |-> 0, soft |-> 0, ne |-> 0, hm |-> 1, al |-> 0, st |-> 0, cap |-> 0, d |-> 8000, hd |-> 1, mn |-> 1000, mx |-> 1000000, md |-> 8000],
+  [n |-> "t2.hybrid.walk_hops", k |-> "int", sec |-> 9, hl |-> 1, lv |-> 1000, lx |-> 0, hh |-> 1, hv |-> 2000, hx |-> 0, nul |-> 0, soft |-> 0, ne |-> 0, hm |-> 0, al |-> 0, st |-> 0, cap |-> 0, d |-> 1000, hd |-> 1, mn |-> 1000, mx |-> 2000, md |-> 0],
+  [n |-> "t2.hybrid.edge_threshold", k |-> "float", sec |-> 9, hl |-> 1, lv |-> 0, lx |-> 0, hh |-> 1, hv |-> 1000, hx |-> 0, nul |-> 0, soft |-> 0, ne |-> 0, hm |-> 1, al |-> 0, st |-> 0, cap |-> 0, d |-> 100, hd |-> 1, mn |-> 0, mx |-> 1000, md |-> 100],
+  [n |-> "t2.hybrid.lambda_graph", k |-> "float", sec |-> 9, hl |-> 1, lv |-> 0, lx |-> 0, hh |-> 1, hv |-> 1000, hx |-> 0, nul |-> 0, soft |-> 0, ne |-> 0, hm |-> 1, al |-> 0, st |-> 0, cap |-> 0, d |-> 250, hd |-> 1, mn |-> 0, mx |-> 1000, md |-> 250],
+  [n |-> "t2.hybrid.damping", k |-> "float", sec |-> 9, hl |-> 1, lv |-> 0, lx |-> 0, hh |-> 1, hv |-> 1000, hx |-> 0, nul |-> 0, soft |-> 0, ne |-> 0, hm |-> 1, al |-> 0, st |-> 0, cap |-> 0, d |-> 500, hd |-> 1, mn |-> 0, mx |-> 1000, md |-> 500],
+  [n |-> "t2.hybrid.degree_norm", k |-> "enum", sec |-> 9, hl |-> 0, lv |-> 0, lx |-> 0, hh |-> 0, hv |-> 0, hx |-> 0, nul |-> 0, soft |-> 0, ne |-> 0, hm |-> 0, al |-> 0, st |-> 0, cap |-> 0, d |-> 1000, hd |-> 1, mn |-> 1000, mx |-> 2000, md |-> 0],
+  [n |-> "t2.hybrid.max_bonus", k |-> "float", sec |-> 9, hl |-> 1, lv |-> 0, lx |-> 0, hh |-> 0, hv |-> 0, hx |-> 0, nul |-> 0, soft |-> 0, ne |-> 0, hm |-> 1, al |-> 0, st |-> 0, cap |-> 0, d |-> 500, hd |-> 1, mn |-> 0, mx |-> 1000000, md |-> 500],
+  [n |-> "t2.hybrid.k_max", k |-> "int", sec |-> 9, hl |-> 1, lv |-> 1000, lx |-> 0, hh |-> 0, hv |-> 0, hx |-> 0, nul |-> 0, soft |-> 0, ne |-> 0, hm |-> 1, al |-> 0, st |-> 0, cap |-> 0, d |-> 128000, hd |-> 1, mn |-> 1000, mx |-> 1000000, md |-> 128000],
+  [n |-> "t2.reader.mode", k |-> "enum", sec |-> 10, hl |-> 0, lv |-> 0, lx |-> 0, hh |-> 0, hv |-> 0, hx |-> 0, nul |-> 0, soft |-> 0, ne |-> 0, hm |-> 1, al |-> 0, st |-> 0, cap |-> 0, d |-> 1000, hd |-> 1, mn |-> 1000, mx |-> 3000, md |-> 2000],
+  [n |-> "t2.lancedb.partitions.by", k |-> "list", sec |-> 12, hl |-> 0, lv |-> 0, lx |-> 0, hh |-> 0, hv |-> 0, hx |-> 0, nul |-> 0, soft |-> 0, ne |-> 0, hm |-> 1, al |-> 0, st |-> 0, cap |-> 0, d |-> 0, hd |-> 0, mn |-> 1000, mx |-> 1000, md |-> 1000],
+  [n |-> "t2.lancedb.partitions.shard_order", k |-> "enum", sec |-> 12, hl |-> 0, lv |-> 0, lx |-> 0, hh |-> 0, hv |-> 0, hx |-> 0, nul |-> 0, soft |-> 0, ne |-> 0, hm |-> 0, al |-> 0, st |-> 0, cap |-> 0, d |-> 0, hd |-> 0, mn |-> 1000, mx |-> 2000, md |-> 0],
+  [n |-> "t2.quality.enabled", k |-> "bool", sec |-> 13, hl |-> 0, lv |-> 0, lx |-> 0, hh |-> 0, hv |-> 0, hx |-> 0, nul |-> 0, soft |-> 0, ne |-> 0, hm |-> 0, al |-> 0, st |-> 0, cap |-> 0, d |-> 0, hd |-> 1, mn |-> 0, mx |-> 1000, md |-> 0],
+  [n |-> "t2.quality.shadow", k |-> "bool", sec |-> 13, hl |-> 0, lv |-> 0, lx |-> 0, hh |-> 0, hv |-> 0, hx |-> 0, nul |-> 0, soft |-> 0, ne |-> 0, hm |-> 0, al |-> 0, st |-> 0, cap |-> 0, d |-> 0, hd |-> 1, mn |-> 0, mx |-> 1000, md |-> 0],
+  [n |-> "t2.quality.trace_dir", k |-> "str", sec |-> 13, hl |-> 0, lv |-> 0, lx |-> 0, hh |-> 0, hv |-> 0, hx |-> 0, nul |-> 0, soft |-> 0, ne |-> 1, hm |-> 1, al |-> 0, st |-> 0, cap |-> 0, d |-> 0, hd |-> 1, mn |-> 1000, mx |-> 1000, md |-> 1000],
+  [n |-> "t2.quality.redact", k |-> "bool", sec |-> 13, hl |-> 0, lv |-> 0, lx |-> 0, hh |-> 0, hv |-> 0, hx |-> 0, nul |-> 0, soft |-> 0, ne |-> 0, hm |-> 0, al |-> 0, st |-> 0, cap |-> 0, d |-> 1000, hd |-> 1, mn |-> 0, mx |-> 1000, md |-> 0],
+  [n |-> "t2.quality.normalizer.enabled", k |-> "bool", sec |-> 14, hl |-> 0, lv |-> 0, lx |-> 0, hh |-> 0, hv |-> 0, hx |-> 0, nul |-> 0, soft |-> 0, ne |-> 0, hm |-> 0, al |-> 0, st |-> 0, cap |-> 0, d |-> 0, hd |-> 0, mn |-> 0, mx |-> 1000, md |-> 0],
+  [n |-> "t2.quality.normalizer.case", k |-> "enum", sec |-> 14, hl |-> 0, lv |-> 0, lx |-> 0, hh |-> 0, hv |-> 0, hx |-> 0, nul |-> 0, soft |-> 0, ne |-> 0, hm |-> 0, al |-> 0, st |-> 0, cap |-> 0, d |-> 1000, hd |-> 1, mn |-> 1000, mx |-> 1000, md |-> 0],
+  [n |-> "t2.quality.normalizer.unicode", k |-> "enum", sec |-> 14, hl |-> 0, lv |-> 0, lx |-> 0, hh |-> 0, hv |-> 0, hx |-> 0, nul |-> 0, soft |-> 0, ne |-> 0, hm |-> 0, al |-> 0, st |-> 0, cap |-> 0, d |-> 1000, hd |-> 1, mn |-> 1000, mx |-> 1000, md |-> 0],
+  [n |-> "t2.quality.normalizer.stopwords", k |-> "str", sec |-> 14, hl |-> 0, lv |-> 0, lx |-> 0, hh |-> 0, hv |-> 0, hx |-> 0, nul |-> 0, soft |-> 0, ne |-> 1, hm |-> 1, al |-> 0, st |-> 0, cap |-> 0, d |-> 0, hd |-> 0, mn |-> 1000, mx |-> 1000, md |-> 1000],
+  [n |-> "t2.quality.normalizer.stemmer", k |-> "enum", sec |-> 14, hl |-> 0, lv |-> 0, lx |-> 0, hh |-> 0, hv |-> 0, hx |-> 0, nul |-> 0, soft |-> 0, ne |-> 0, hm |-> 0, al |-> 0, st |-> 0, cap |-> 0, d |-> 0, hd |-> 0, mn |-> 1000, mx |-> 2000, md |-> 0],
+  [n |-> "t2.quality.normalizer.min_token_len", k |-> "int", sec |-> 14, hl |-> 1, lv |-> 1000, lx |-> 0, hh |-> 0, hv |-> 0, hx |-> 0, nul |-> 0, soft |-> 0, ne |-> 0, hm |-> 1, al |-> 0, st |-> 0, cap |-> 0, d |-> 0, hd |-> 0, mn |-> 1000, mx |-> 64000, md |-> 2000],
+  [n |-> "t2.quality.aliasing.enabled", k |-> "bool", sec |-> 15, hl |-> 0, lv |-> 0, lx |-> 0, hh |-> 0, hv |-> 0, hx |-> 0, nul |-> 0, soft |-> 0, ne |-> 0, hm |-> 0, al |-> 0, st |-> 0, cap |-> 0, d |-> 0, hd |-> 0, mn |-> 0, mx |-> 1000, md |-> 0],
+  [n |-> "t2.quality.aliasing.map_path", k |-> "str", sec |-> 15, hl |-> 0, lv |-> 0, lx |-> 0, hh |-> 0, hv |-> 0, hx |-> 0, nul |-> 0, soft |-> 0, ne |-> 1, hm |-> 1, al |-> 0, st |-> 0, cap |-> 0, d |-> 0, hd |-> 0, mn |-> 1000, mx |-> 1000, md |-> 1000],
+  [n |-> "t2.quality.aliasing.max_expansions_per_token", k |-> "int", sec |-> 15, hl |-> 1, lv |-> 0, lx |-> 0, hh |-> 0, hv |-> 0, hx |-> 0, nul |-> 0, soft |-> 0, ne |-> 0, hm |-> 1, al |-> 0, st |-> 0, cap |-> 0, d |-> 0, hd |-> 0, mn |-> 0, mx |-> 64000, md |-> 2000],
+  [n |-> "t2.quality.lexical.enabled", k |-> "bool", sec |-> 16, hl |-> 0, lv |-> 0, lx |-> 0, hh |-> 0, hv |-> 0, hx |-> 0, nul |-> 0, soft |-> 0, ne |-> 0, hm |-> 0, al |-> 0, st |-> 0, cap |-> 0, d |-> 0, hd |-> 0, mn |-> 0, mx |-> 1000, md |-> 0],
+  [n |-> "t2.quality.lexical.bm25_k1", k |-> "float", sec |-> 16, hl |-> 1, lv |-> 0, lx |-> 0, hh |-> 0, hv |-> 0, hx |-> 0, nul |-> 0, soft |-> 0, ne |-> 0, hm |-> 1, al |-> 0, st |-> 1, cap |-> 0, d |-> 1200, hd |-> 1, mn |-> 0, mx |-> 10000, md |-> 1200],
+  [n |-> "t2.quality.lexical.bm25_b", k |-> "float", sec |-> 16, hl |-> 1, lv |-> 0, lx |-> 0, hh |-> 1, hv |-> 1000, hx |-> 0, nul |-> 0, soft |-> 0, ne |-> 0, hm |-> 1, al |-> 0, st |-> 1, cap |-> 0, d |-> 750, hd |-> 1, mn |-> 0, mx |-> 1000, md |-> 750],
+  [n |-> "t2.quality.lexical.stopwords", k |-> "enum", sec |-> 16, hl |-> 0, lv |-> 0, lx |-> 0, hh |-> 0, hv |-> 0, hx |-> 0, nul |-> 0, soft |-> 0, ne |-> 0, hm |-> 0, al |-> 0, st |-> 0, cap |-> 0, d |-> 2000, hd |-> 1, mn |-> 1000, mx |-> 2000, md |-> 0],
+  [n |-> "t2.quality.lexical.bm25.k1", k |-> "float", sec |-> 17, hl |-> 0, lv |-> 0, lx |-> 0, hh |-> 0, hv |-> 0, hx |-> 0, nul |-> 0, soft |-> 0, ne |-> 0, hm |-> 1, al |-> 0, st |-> 0, cap |-> 0, d |-> 0, hd |-> 0, mn |-> 0, mx |-> 10000, md |-> 1200],
+  [n |-> "t2.quality.lexical.bm25.b", k |-> "float", sec |-> 17, hl |-> 0, lv |-> 0, lx |-> 0, hh |-> 0, hv |-> 0, hx |-> 0, nul |-> 0, soft |-> 0, ne |-> 0, hm |-> 1, al |-> 0, st |-> 0, cap |-> 0, d |-> 0, hd |-> 0, mn |-> 0, mx |-> 1000, md |-> 750],
+  [n |-> "t2.quality.lexical.bm25.doclen_floor", k |-> "int", sec |-> 17, hl |-> 1, lv |-> 0, lx |-> 0, hh |-> 0, hv |-> 0, hx |-> 0, nul |-> 0, soft |-> 0, ne |-> 0, hm |-> 1, al |-> 0, st |-> 0, cap |-> 0, d |-> 0, hd |-> 0, mn |-> 0, mx |-> 10000000, md |-> 10000],
+  [n |-> "t2.quality.fusion.enabled", k |-> "bool", sec |-> 18, hl |-> 0, lv |-> 0, lx |-> 0, hh |-> 0, hv |-> 0, hx |-> 0, nul |-> 0, soft |-> 0, ne |-> 0, hm |-> 0, al |-> 0, st |-> 0, cap |-> 0, d |-> 0, hd |-> 0, mn |-> 0, mx |-> 1000, md |-> 0],
+  [n |-> "t2.quality.fusion.mode", k |-> "enum", sec |-> 18, hl |-> 0, lv |-> 0, lx |-> 0, hh |-> 0, hv |-> 0, hx |-> 0, nul |-> 0, soft |-> 0, ne |-> 0, hm |-> 0, al |-> 0, st |-> 0, cap |-> 0, d |-> 1000, hd |-> 1, mn |-> 1000, mx |-> 1000, md |-> 0],
+  [n |-> "t2.quality.fusion.alpha_semantic", k |-> "float", sec |-> 18, hl |-> 1, lv |-> 0, lx |-> 0, hh |-> 1, hv |-> 1000, hx |-> 0, nul |-> 0, soft |-> 0, ne |-> 0, hm |-> 1, al |-> 0, st |-> 1, cap |-> 0, d |-> 600, hd |-> 1, mn |-> 0, mx |-> 1000, md |-> 700],
+  [n |-> "t2.quality.fusion.score_norm", k |-> "enum", sec |-> 18, hl |-> 0, lv |-> 0, lx |-> 0, hh |-> 0, hv |-> 0, hx |-> 0, nul |-> 0, soft |-> 0, ne |-> 0, hm |-> 0, al |-> 0, st |-> 0, cap |-> 0, d |-> 0, hd |-> 0, mn |-> 1000, mx |-> 2000, md |-> 0],
+  [n |-> "t2.quality.mmr.enabled", k |-> "bool", sec |-> 19, hl |-> 0, lv |-> 0, lx |-> 0, hh |-> 0, hv |-> 0, hx |-> 0, nul |-> 0, soft |-> 0, ne |-> 0, hm |-> 0, al |-> 0, st |-> 0, cap |-> 0, d |-> 0, hd |-> 0, mn |-> 0, mx |-> 1000, md |-> 0],
+  [n |-> "t2.quality.mmr.lambda", k |-> "float", sec |-> 19, hl |-> 1, lv |-> 0, lx |-> 0, hh |-> 1, hv |-> 1000, hx |-> 0, nul |-> 0, soft |-> 0, ne |-> 0, hm |-> 1, al |-> 0, st |-> 0, cap |-> 0, d |-> 0, hd |-> 0, mn |-> 0, mx |-> 1000, md |-> 500],
+  [n |-> "t2.quality.mmr.lambda_relevance", k |-> "float", sec |-> 19, hl |-> 1, lv |-> 0, lx |-> 0, hh |-> 1, hv |-> 1000, hx |-> 0, nul |-> 0, soft |-> 0, ne |-> 0, hm |-> 1, al |-> 78, st |-> 0, cap |-> 0, d |-> 0, hd |-> 0, mn |-> 0, mx |-> 1000, md |-> 750],
+  [n |-> "t2.quality.mmr.diversity_by_owner", k |-> "bool", sec |-> 19, hl |-> 0, lv |-> 0, lx |-> 0, hh |-> 0, hv |-> 0, hx |-> 0, nul |-> 0, soft |-> 0, ne |-> 0, hm |-> 0, al |-> 0, st |-> 0, cap |-> 0, d |-> 0, hd |-> 0, mn |-> 0, mx |-> 1000, md |-> 0],
+  [n |-> "t2.quality.mmr.diversity_by_token", k |-> "bool", sec |-> 19, hl |-> 0, lv |-> 0, lx |-> 0, hh |-> 0, hv |-> 0, hx |-> 0, nul |-> 0, soft |-> 0, ne |-> 0, hm |-> 0, al |-> 0, st |-> 0, cap |-> 0, d |-> 0, hd |-> 0, mn |-> 0, mx |-> 1000, md |-> 0],
+  [n |-> "t2.quality.mmr.k", k |-> "int", sec |-> 19, hl |-> 1, lv |-> 1000, lx |-> 0, hh |-> 0, hv |-> 0, hx |-> 0, nul |-> 0, soft |-> 0, ne |-> 0, hm |-> 1, al |-> 0, st |-> 0, cap |-> 0, d |-> 0, hd |-> 0, mn |-> 1000, mx |-> 1000000, md |-> 8000],
+  [n |-> "t2.quality.mmr.k_final", k |-> "int", sec |-> 19, hl |-> 1, lv |-> 1000, lx |-> 0, hh |-> 0, hv |-> 0, hx |-> 0, nul |-> 0, soft |-> 0, ne |-> 0, hm |-> 1, al |-> 82, st |-> 0, cap |-> 0, d |-> 0, hd |-> 0, mn |-> 1000, mx |-> 1000000, md |-> 8000],
+  [n |-> "t3.max_rag_loops", k |-> "int", sec |-> 20, hl |-> 1, lv |-> 0, lx |-> 0, hh |-> 1, hv |-> 1000, hx |-> 0, nul |-> 0, soft |-> 0, ne |-> 0, hm |-> 0, al |-> 0, st |-> 0, cap |-> 0, d |-> 1000, hd |-> 1, mn |-> 0, mx |-> 1000, md |-> 0],
+  [n |-> "t3.max_ops_per_turn", k |-> "int", sec |-> 20, hl |-> 1, lv |-> 1000, lx |-> 0, hh |-> 1, hv |-> 16000, hx |-> 0, nul |-> 0, soft |-> 0, ne |-> 0, hm |-> 1, al |-> 0, st |-> 0, cap |-> 0, d |-> 8000, hd |-> 1, mn |-> 1000, mx |-> 16000, md |-> 3000],
+  [n |-> "t3.backend", k |-> "enum", sec |-> 20, hl |-> 0, lv |-> 0, lx |-> 0, hh |-> 0, hv |-> 0, hx |-> 0, nul |-> 0, soft |-> 0, ne |-> 0, hm |-> 0, al |-> 0, st |-> 0, cap |-> 0, d |-> 1000, hd |-> 1, mn |-> 1000, mx |-> 2000, md |-> 0],
+  [n |-> "t3.tokens", k |-> "int", sec |-> 20, hl |-> 1, lv |-> 1000, lx |-> 0, hh |-> 0, hv |-> 0, hx |-> 0, nul |-> 0, soft |-> 0, ne |-> 0, hm |-> 1, al |-> 0, st |-> 0, cap |-> 0, d |-> 256000, hd |-> 1, mn |-> 1000, mx |-> 1000000, md |-> 256000],
+  [n |-> "t3.temp", k |-> "float", sec |-> 20, hl |-> 1, lv |-> 0, lx |-> 0, hh |-> 1, hv |-> 1000, hx |-> 0, nul |-> 0, soft |-> 0, ne |-> 0, hm |-> 1, al |-> 0, st |-> 0, cap |-> 0, d |-> 700, hd |-> 1, mn |-> 0, mx |-> 1000, md |-> 200],
+  [n |-> "t3.allow_reflection", k |-> "bool", sec |-> 20, hl |-> 0, lv |-> 0, lx |-> 0, hh |-> 0, hv |-> 0, hx |-> 0, nul |-> 0, soft |-> 0, ne |-> 0, hm |-> 0, al |-> 0, st |-> 0, cap |-> 0, d |-> 0, hd |-> 1, mn |-> 0, mx |-> 1000, md |-> 0],
+  [n |-> "t3.apply_ops", k |-> "bool", sec |-> 20, hl |-> 0, lv |-> 0, lx |-> 0, hh |-> 0, hv |-> 0, hx |-> 0, nul |-> 0, soft |-> 0, ne |-> 0, hm |-> 0, al |-> 0, st |-> 0, cap |-> 0, d |-> 0, hd |-> 1, mn |-> 0, mx |-> 1000, md |-> 0],
+  [n |-> "t3.dialogue.template", k |-> "str", sec |-> 21, hl |-> 0, lv |-> 0, lx |-> 0, hh |-> 0, hv |-> 0, hx |-> 0, nul |-> 0, soft |-> 0, ne |-> 1, hm |-> 1, al |-> 0, st |-> 0, cap |-> 0, d |-> 0, hd |-> 0, mn |-> 1000, mx |-> 1000, md |-> 1000],
+  [n |-> "t3.dialogue.include_top_k_snippets", k |-> "int", sec |-> 21, hl |-> 1, lv |-> 0, lx |-> 0, hh |-> 0, hv |-> 0, hx |-> 0, nul |-> 0, soft |-> 0, ne |-> 0, hm |-> 1, al |-> 0, st |-> 0, cap |-> 0, d |-> 0, hd |-> 0, mn |-> 0, mx |-> 64000, md |-> 2000],
+  [n |-> "t3.policy.tau_high", k |-> "float", sec |-> 22, hl |-> 1, lv |-> 0, lx |-> 0, hh |-> 1, hv |-> 1000, hx |-> 0, nul |-> 0, soft |-> 0, ne |-> 0, hm |-> 1, al |-> 0, st |-> 0, cap |-> 0, d |-> 0, hd |-> 0, mn |-> 0, mx |-> 1000, md |-> 800],
+  [n |-> "t3.policy.tau_low", k |-> "float", sec |-> 22, hl |-> 1, lv |-> 0, lx |-> 0, hh |-> 1, hv |-> 1000, hx |-> 0, nul |-> 0, soft |-> 0, ne |-> 0, hm |-> 1, al |-> 0, st |-> 0, cap |-> 0, d |-> 0, hd |-> 0, mn |-> 0, mx |-> 1000, md |-> 400],
+  [n |-> "t3.policy.epsilon_edit", k |-> "float", sec |-> 22, hl |-> 1, lv |-> 0, lx |-> 0, hh |-> 1, hv |-> 1000, hx |-> 0, nul |-> 0, soft |-> 0, ne |-> 0, hm |-> 1, al |-> 0, st |-> 0, cap |-> 0, d |-> 0, hd |-> 0, mn |-> 0, mx |-> 1000, md |-> 100],
+  [n |-> "t3.reflection.backend", k |-> "enum", sec |-> 23, hl |-> 0, lv |-> 0, lx |-> 0, hh |-> 0, hv |-> 0, hx |-> 0, nul |-> 0, soft |-> 0, ne |-> 0, hm |-> 0, al |-> 0, st |-> 0, cap |-> 0, d |-> 1000, hd |-> 1, mn |-> 1000, mx |-> 2000, md |-> 0],
+  [n |-> "t3.reflection.summary_tokens", k |-> "int", sec |-> 23, hl |-> 1, lv |-> 0, lx |-> 0, hh |-> 0, hv |-> 0, hx |-> 0, nul |-> 0, soft |-> 0, ne |-> 0, hm |-> 1, al |-> 0, st |-> 0, cap |-> 0, d |-> 128000, hd |-> 1, mn |-> 0, mx |-> 1000000, md |-> 128000],
+  [n |-> "t3.reflection.embed", k |-> "bool", sec |-> 23, hl |-> 0, lv |-> 0, lx |-> 0, hh |-> 0, hv |-> 0, hx |-> 0, nul |-> 0, soft |-> 0, ne |-> 0, hm |-> 0, al |-> 0, st |-> 0, cap |-> 0, d |-> 1000, hd |-> 1, mn |-> 0, mx |-> 1000, md |-> 0],
+  [n |-> "t3.reflection.log", k |-> "bool", sec |-> 23, hl |-> 0, lv |-> 0, lx |-> 0, hh |-> 0, hv |-> 0, hx |-> 0, nul |-> 0, soft |-> 0, ne |-> 0, hm |-> 0, al |-> 0, st |-> 0, cap |-> 0, d |-> 1000, hd |-> 1, mn |-> 0, mx |-> 1000, md |-> 0],
+  [n |-> "t3.reflection.topk_snippets", k |-> "int", sec |-> 23, hl |-> 1, lv |-> 0, lx |-> 0, hh |-> 0, hv |-> 0, hx |-> 0, nul |-> 0, soft |-> 0, ne |-> 0, hm |-> 1, al |-> 0, st |-> 0, cap |-> 0, d |-> 3000, hd |-> 1, mn |-> 0, mx |-> 64000, md |-> 3000],
+  [n |-> "t3.llm.provider", k |-> "enum", sec |-> 24, hl |-> 0, lv |-> 0, lx |-> 0, hh |-> 0, hv |-> 0, hx |-> 0, nul |-> 0, soft |-> 0, ne |-> 0, hm |-> 0, al |-> 0, st |-> 0, cap |-> 0, d |-> 1000, hd |-> 1, mn |-> 1000, mx |-> 2000, md |-> 0],
+  [n |-> "t3.llm.model", k |-> "str", sec |-> 24, hl |-> 0, lv |-> 0, lx |-> 0, hh |-> 0, hv |-> 0, hx |-> 0, nul |-> 0, soft |-> 0, ne |-> 1, hm |-> 1, al |-> 0, st |-> 0, cap |-> 0, d |-> 0, hd |-> 1, mn |-> 1000, mx |-> 1000, md |-> 1000],
+  [n |-> "t3.llm.endpoint", k |-> "str", sec |-> 24, hl |-> 0, lv |-> 0, lx |-> 0, hh |-> 0, hv |-> 0, hx |-> 0, nul |-> 0, soft |-> 0, ne |-> 1, hm |-> 1, al |-> 0, st |-> 0, cap |-> 0, d |-> 0, hd |-> 1, mn |-> 1000, mx |-> 1000, md |-> 1000],
+  [n |-> "t3.llm.max_tokens", k |-> "int", sec |-> 24, hl |-> 1, lv |-> 1000, lx |-> 0, hh |-> 0, hv |-> 0, hx |-> 0, nul |-> 0, soft |-> 0, ne |-> 0, hm |-> 1, al |-> 0, st |-> 0, cap |-> 0, d |-> 256000, hd |-> 1, mn |-> 1000, mx |-> 1000000, md |-> 256000],
+  [n |-> "t3.llm.temp", k |-> "float", sec |-> 24, hl |-> 1, lv |-> 0, lx |-> 0, hh |-> 1, hv |-> 1000, hx |-> 0, nul |-> 0, soft |-> 0, ne |-> 0, hm |-> 1, al |-> 0, st |-> 0, cap |-> 0, d |-> 200, hd |-> 1, mn |-> 0, mx |-> 1000, md |-> 200],
+  [n |-> "t3.llm.timeout_ms", k |-> "int", sec |-> 24, hl |-> 1, lv |-> 1000, lx |-> 0, hh |-> 0, hv |-> 0, hx |-> 0, nul |-> 0, soft |-> 0, ne |-> 0, hm |-> 1, al |-> 0, st |-> 0, cap |-> 0, d |-> 10000000, hd |-> 1, mn |-> 1000, mx |-> 20000000, md |-> 10000000],
+  [n |-> "t3.llm.fixtures.enabled", k |-> "bool", sec |-> 25, hl |-> 0, lv |-> 0, lx |-> 0, hh |-> 0, hv |-> 0, hx |-> 0, nul |-> 0, soft |-> 0, ne |-> 0, hm |-> 0, al |-> 0, st |-> 0, cap |-> 0, d |-> 0, hd |-> 1, mn |-> 0, mx |-> 1000, md |-> 0],
+  [n |-> "t3.llm.fixtures.path", k |-> "str", sec |-> 25, hl |-> 0, lv |-> 0, lx |-> 0, hh |-> 0, hv |-> 0, hx |-> 0, nul |-> 1, soft |-> 1, ne |-> 1, hm |-> 1, al |-> 0, st |-> 0, cap |-> 0, d |-> 0, hd |-> 0, mn |-> 1000, mx |-> 1000, md |-> 1000],
+  [n |-> "t4.enabled", k |-> "bool", sec |-> 26, hl |-> 0, lv |-> 0, lx |-> 0, hh |-> 0, hv |-> 0, hx |-> 0, nul |-> 0, soft |-> 0, ne |-> 0, hm |-> 0, al |-> 0, st |-> 0, cap |-> 0, d |-> 1000, hd |-> 1, mn |-> 0, mx |-> 1000, md |-> 0],
+  [n |-> "t4.delta_norm_cap_l2", k |-> "float", sec |-> 26, hl |-> 1, lv |-> 0, lx |-> 1, hh |-> 0, hv |-> 0, hx |-> 0, nul |-> 0, soft |-> 0, ne |-> 0, hm |-> 1, al |-> 0, st |-> 0, cap |-> 0, d |-> 1500, hd |-> 1, mn |-> 1, mx |-> 1000000, md |-> 1500],
+  [n |-> "t4.novelty_cap_per_node", k |-> "float", sec |-> 26, hl |-> 1, lv |-> 0, lx |-> 1, hh |-> 1, hv |-> 1000, hx |-> 0, nul |-> 0, soft |-> 0, ne |-> 0, hm |-> 1, al |-> 0, st |-> 0, cap |-> 0, d |-> 300, hd |-> 1, mn |-> 1, mx |-> 1000, md |-> 300],
+  [n |-> "t4.churn_cap_edges", k |-> "int", sec |-> 26, hl |-> 1, lv |-> 0, lx |-> 0, hh |-> 0, hv |-> 0, hx |-> 0, nul |-> 0, soft |-> 0, ne |-> 0, hm |-> 1, al |-> 0, st |-> 0, cap |-> 0, d |-> 64000, hd |-> 1, mn |-> 0, mx |-> 1000000, md |-> 64000],
+  [n |-> "t4.cooldowns", k |-> "map", sec |-> 26, hl |-> 1, lv |-> 0, lx |-> 0, hh |-> 0, hv |-> 0, hx |-> 0, nul |-> 0, soft |-> 0, ne |-> 0, hm |-> 1, al |-> 0, st |-> 0, cap |-> 0, d |-> 0, hd |-> 1, mn |-> 1000, mx |-> 1000, md |-> 1000],
+  [n |-> "t4.weight_min", k |-> "float", sec |-> 26, hl |-> 1, lv |-> -1000, lx |-> 0, hh |-> 1, hv |-> 1000, hx |-> 0, nul |-> 0, soft |-> 0, ne |-> 0, hm |-> 1, al |-> 0, st |-> 0, cap |-> 0, d |-> -1000, hd |-> 1, mn |-> -1000, mx |-> 1000, md |-> -500],
+  [n |-> "t4.weight_max", k |-> "float", sec |-> 26, hl |-> 1, lv |-> -1000, lx |-> 0, hh |-> 1, hv |-> 1000, hx |-> 0, nul |-> 0, soft |-> 0, ne |-> 0, hm |-> 1, al |-> 0, st |-> 0, cap |-> 0, d |-> 1000, hd |-> 1, mn |-> -1000, mx |-> 1000, md |-> 500],
+  [n |-> "t4.snapshot_every_n_turns", k |-> "int", sec |-> 26, hl |-> 1, lv |-> 1000, lx |-> 0, hh |-> 0, hv |-> 0, hx |-> 0, nul |-> 0, soft |-> 0, ne |-> 0, hm |-> 1, al |-> 0, st |-> 0, cap |-> 0, d |-> 1000, hd |-> 1, mn |-> 1000, mx |-> 1000000, md |-> 2000],
+  [n |-> "t4.snapshot_dir", k |-> "str", sec |-> 26, hl |-> 0, lv |-> 0, lx |-> 0, hh |-> 0, hv |-> 0, hx |-> 0, nul |-> 0, soft |-> 0, ne |-> 1, hm |-> 1, al |-> 0, st |-> 0, cap |-> 0, d |-> 0, hd |-> 1, mn |-> 1000, mx |-> 1000, md |-> 1000],
+  [n |-> "t4.cache_bust_mode", k |-> "enum", sec |-> 26, hl |-> 0, lv |-> 0, lx |-> 0, hh |-> 0, hv |-> 0, hx |-> 0, nul |-> 0, soft |-> 0, ne |-> 0, hm |-> 0, al |-> 0, st |-> 0, cap |-> 0, d |-> 2000, hd |-> 1, mn |-> 1000, mx |-> 2000, md |-> 0],
+  [n |-> "t4.cache.enabled", k |-> "bool", sec |-> 27, hl |-> 0, lv |-> 0, lx |-> 0, hh |-> 0, hv |-> 0, hx |-> 0, nul |-> 0, soft |-> 0, ne |-> 0, hm |-> 0, al |-> 0, st |-> 0, cap |-> 0, d |-> 1000, hd |-> 1, mn |-> 0, mx |-> 1000, md |-> 0],
+  [n |-> "t4.cache.namespaces", k |-> "list", sec |-> 27, hl |-> 0, lv |-> 0, lx |-> 0, hh |-> 1, hv |-> 0, hx |-> 0, nul |-> 0, soft |-> 0, ne |-> 0, hm |-> 1, al |-> 0, st |-> 0, cap |-> 0, d |-> 0, hd |-> 1, mn |-> 1000, mx |-> 1000, md |-> 1000],
+  [n |-> "t4.cache.max_entries", k |-> "int", sec |-> 27, hl |-> 1, lv |-> 0, lx |-> 0, hh |-> 0, hv |-> 0, hx |-> 0, nul |-> 0, soft |-> 0, ne |-> 0, hm |-> 1, al |-> 0, st |-> 0, cap |-> 0, d |-> 512000, hd |-> 1, mn |-> 0, mx |-> 1000000, md |-> 500000],
+  [n |-> "t4.cache.ttl_sec", k |-> "int", sec |-> 27, hl |-> 1, lv |-> 0, lx |-> 0, hh |-> 0, hv |-> 0, hx |-> 0, nul |-> 0, soft |-> 0, ne |-> 0, hm |-> 1, al |-> 0, st |-> 0, cap |-> 0, d |-> 600000, hd |-> 1, mn |-> 0, mx |-> 1000000, md |-> 500000],
+  [n |-> "t4.cache.ttl_s", k |-> "int", sec |-> 27, hl |-> 1, lv |-> 0, lx |-> 0, hh |-> 0, hv |-> 0, hx |-> 0, nul |-> 0, soft |-> 0, ne |-> 0, hm |-> 1, al |-> 122, st |-> 0, cap |-> 0, d |-> 0, hd |-> 0, mn |-> 0, mx |-> 1000000, md |-> 500000],
+  [n |-> "graph.enabled", k |-> "bool", sec |-> 29, hl |-> 0, lv |-> 0, lx |-> 0, hh |-> 0, hv |-> 0, hx |-> 0, nul |-> 0, soft |-> 0, ne |-> 0, hm |-> 0, al |-> 0, st |-> 0, cap |-> 0, d |-> 0, hd |-> 1, mn |-> 0, mx |-> 1000, md |-> 0],
+  [n |-> "graph.coactivation_threshold", k |-> "float", sec |-> 29, hl |-> 1, lv |-> 0, lx |-> 0, hh |-> 1, hv |-> 1000, hx |-> 0, nul |-> 0, soft |-> 0, ne |-> 0, hm |-> 1, al |-> 0, st |-> 0, cap |-> 0, d |-> 200, hd |-> 1, mn |-> 0, mx |-> 1000, md |-> 200],
+  [n |-> "graph.observe_top_k", k |-> "int", sec |-> 29, hl |-> 1, lv |-> 1000, lx |-> 0, hh |-> 0, hv |-> 0, hx |-> 0, nul |-> 0, soft |-> 0, ne |-> 0, hm |-> 1, al |-> 0, st |-> 0, cap |-> 0, d |-> 64000, hd |-> 1, mn |-> 1000, mx |-> 1000000, md |-> 64000],
+  [n |-> "graph.pair_cap_per_obs", k |-> "int", sec |-> 29, hl |-> 1, lv |-> 0, lx |-> 0, hh |-> 0, hv |-> 0, hx |-> 0, nul |-> 0, soft |-> 0, ne |-> 0, hm |-> 1, al |-> 0, st |-> 0, cap |-> 0, d |-> 2048000, hd |-> 1, mn |-> 0, mx |-> 4096000, md |-> 2048000],
+  [n |-> "graph.update.mode", k |-> "enum", sec |-> 30, hl |-> 0, lv |-> 0, lx |-> 0, hh |-> 0, hv |-> 0, hx |-> 0, nul |-> 0, soft |-> 0, ne |-> 0, hm |-> 0, al |-> 0, st |-> 0, cap |-> 0, d |-> 1000, hd |-> 1, mn |-> 1000, mx |-> 2000, md |-> 0],
+  [n |-> "graph.update.alpha", k |-> "float", sec |-> 30, hl |-> 1, lv |-> 0, lx |-> 1, hh |-> 0, hv |-> 0, hx |-> 0, nul |-> 0, soft |-> 0, ne |-> 0, hm |-> 1, al |-> 0, st |-> 0, cap |-> 0, d |-> 20, hd |-> 1, mn |-> 1, mx |-> 1000, md |-> 20],
+  [n |-> "graph.update.clamp_min", k |-> "float", sec |-> 30, hl |-> 0, lv |-> 0, lx |-> 0, hh |-> 0, hv |-> 0, hx |-> 0, nul |-> 0, soft |-> 0, ne |-> 0, hm |-> 1, al |-> 0, st |-> 0, cap |-> 0, d |-> -1000, hd |-> 1, mn |-> -1000, mx |-> 125, md |-> -900],
+  [n |-> "graph.update.clamp_max", k |-> "float", sec |-> 30, hl |-> 0, lv |-> 0, lx |-> 0, hh |-> 0, hv |-> 0, hx |-> 0, nul |-> 0, soft |-> 0, ne |-> 0, hm |-> 1, al |-> 0, st |-> 0, cap |-> 0, d |-> 1000, hd |-> 1, mn |-> 250, mx |-> 1000, md |-> 900],
+  [n |-> "graph.decay.half_life_turns", k |-> "int", sec |-> 31, hl |-> 1, lv |-> 1000, lx |-> 0, hh |-> 0, hv |-> 0, hx |-> 0, nul |-> 0, soft |-> 0, ne |-> 0, hm |-> 1, al |-> 0, st |-> 0, cap |-> 0, d |-> 200000, hd |-> 1, mn |-> 1000, mx |-> 1000000, md |-> 200000],
+  [n |-> "graph.decay.floor", k |-> "float", sec |-> 31, hl |-> 1, lv |-> 0, lx |-> 0, hh |-> 0, hv |-> 0, hx |-> 0, nul |-> 0, soft |-> 0, ne |-> 0, hm |-> 1, al |-> 0, st |-> 0, cap |-> 0, d |-> 0, hd |-> 1, mn |-> 0, mx |-> 250, md |-> 10],
+  [n |-> "graph.merge.enabled", k |-> "bool", sec |-> 32, hl |-> 0, lv |-> 0, lx |-> 0, hh |-> 0, hv |-> 0, hx |-> 0, nul |-> 0, soft |-> 0, ne |-> 0, hm |-> 0, al |-> 0, st |-> 0, cap |-> 0, d |-> 0, hd |-> 1, mn |-> 0, mx |-> 1000, md |-> 0],
+  [n |-> "graph.merge.min_size", k |-> "int", sec |-> 32, hl |-> 1, lv |-> 2000, lx |-> 0, hh |-> 0, hv |-> 0, hx |-> 0, nul |-> 0, soft |-> 0, ne |-> 0, hm |-> 1, al |-> 0, st |-> 0, cap |-> 0, d |-> 3000, hd |-> 1, mn |-> 2000, mx |-> 64000, md |-> 3000],
+  [n |-> "graph.merge.min_avg_w", k |-> "float", sec |-> 32, hl |-> 1, lv |-> 0, lx |-> 0, hh |-> 1, hv |-> 1000, hx |-> 0, nul |-> 0, soft |-> 0, ne |-> 0, hm |-> 1, al |-> 0, st |-> 0, cap |-> 0, d |-> 200, hd |-> 1, mn |-> 125, mx |-> 1000, md |-> 200],
+  [n |-> "graph.merge.max_diameter", k |-> "int", sec |-> 32, hl |-> 1, lv |-> 1000, lx |-> 0, hh |-> 0, hv |-> 0, hx |-> 0, nul |-> 0, soft |-> 0, ne |-> 0, hm |-> 1, al |-> 0, st |-> 0, cap |-> 0, d |-> 2000, hd |-> 1, mn |-> 1000, mx |-> 64000, md |-> 2000],
+  [n |-> "graph.merge.cap_per_turn", k |-> "int", sec |-> 32, hl |-> 1, lv |-> 0, lx |-> 0, hh |-> 0, hv |-> 0, hx |-> 0, nul |-> 0, soft |-> 0, ne |-> 0, hm |-> 1, al |-> 0, st |-> 0, cap |-> 0, d |-> 4000, hd |-> 1, mn |-> 0, mx |-> 64000, md |-> 4000],
+  [n |-> "graph.split.enabled", k |-> "bool", sec |-> 33, hl |-> 0, lv |-> 0, lx |-> 0, hh |-> 0, hv |-> 0, hx |-> 0, nul |-> 0, soft |-> 0, ne |-> 0, hm |-> 0, al |-> 0, st |-> 0, cap |-> 0, d |-> 0, hd |-> 1, mn |-> 0, mx |-> 1000, md |-> 0],
+  [n |-> "graph.split.weak_edge_thresh", k |-> "float", sec |-> 33, hl |-> 1, lv |-> 0, lx |-> 0, hh |-> 1, hv |-> 1000, hx |-> 0, nul |-> 0, soft |-> 0, ne |-> 0, hm |-> 1, al |-> 0, st |-> 0, cap |-> 0, d |-> 50, hd |-> 1, mn |-> 0, mx |-> 125, md |-> 50],
+  [n |-> "graph.split.min_component_size", k |-> "int", sec |-> 33, hl |-> 1, lv |-> 2000, lx |-> 0, hh |-> 0, hv |-> 0, hx |-> 0, nul |-> 0, soft |-> 0, ne |-> 0, hm |-> 1, al |-> 0, st |-> 0, cap |-> 0, d |-> 2000, hd |-> 1, mn |-> 2000, mx |-> 64000, md |-> 3000],
+  [n |-> "graph.split.cap_per_turn", k |-> "int", sec |-> 33, hl |-> 1, lv |-> 0, lx |-> 0, hh |-> 0, hv |-> 0, hx |-> 0, nul |-> 0, soft |-> 0, ne |-> 0, hm |-> 1, al |-> 0, st |-> 0, cap |-> 0, d |-> 4000, hd |-> 1, mn |-> 0, mx |-> 64000, md |-> 4000],
+  [n |-> "graph.promotion.enabled", k |-> "bool", sec |-> 34, hl |-> 0, lv |-> 0, lx |-> 0, hh |-> 0, hv |-> 0, hx |-> 0, nul |-> 0, soft |-> 0, ne |-> 0, hm |-> 0, al |-> 0, st |-> 0, cap |-> 0, d |-> 0, hd |-> 1, mn |-> 0, mx |-> 1000, md |-> 0],
+  [n |-> "graph.promotion.label_mode", k |-> "enum", sec |-> 34, hl |-> 0, lv |-> 0, lx |-> 0, hh |-> 0, hv |-> 0, hx |-> 0, nul |-> 0, soft |-> 0, ne |-> 0, hm |-> 0, al |-> 0, st |-> 0, cap |-> 0, d |-> 1000, hd |-> 1, mn |-> 1000, mx |-> 2000, md |-> 0],
+  [n |-> "graph.promotion.topk_label_ids", k |-> "int", sec |-> 34, hl |-> 1, lv |-> 1000, lx |-> 0, hh |-> 0, hv |-> 0, hx |-> 0, nul |-> 0, soft |-> 0, ne |-> 0, hm |-> 1, al |-> 0, st |-> 0, cap |-> 0, d |-> 3000, hd |-> 1, mn |-> 1000, mx |-> 64000, md |-> 3000],
+  [n |-> "graph.promotion.attach_weight", k |-> "float", sec |-> 34, hl |-> 1, lv |-> -1000, lx |-> 0, hh |-> 1, hv |-> 1000, hx |-> 0, nul |-> 0, soft |-> 0, ne |-> 0, hm |-> 1, al |-> 0, st |-> 0, cap |-> 0, d |-> 500, hd |-> 1, mn |-> -1000, mx |-> 1000, md |-> 500],
+  [n |-> "graph.promotion.cap_per_turn", k |-> "int", sec |-> 34, hl |-> 1, lv |-> 0, lx |-> 0, hh |-> 0, hv |-> 0, hx |-> 0, nul |-> 0, soft |-> 0, ne |-> 0, hm |-> 1, al |-> 0, st |-> 0, cap |-> 0, d |-> 2000, hd |-> 1, mn |-> 0, mx |-> 64000, md |-> 2000],
+  [n |-> "scheduler.enabled", k |-> "bool", sec |-> 35, hl |-> 0, lv |-> 0, lx |-> 0, hh |-> 0, hv |-> 0, hx |-> 0, nul |-> 0, soft |-> 0, ne |-> 0, hm |-> 0, al |-> 0, st |-> 0, cap |-> 0, d |-> 0, hd |-> 1, mn |-> 0, mx |-> 1000, md |-> 0],
+  [n |-> "scheduler.policy", k |-> "enum", sec |-> 35, hl |-> 0, lv |-> 0, lx |-> 0, hh |-> 0, hv |-> 0, hx |-> 0, nul |-> 0, soft |-> 0, ne |-> 0, hm |-> 0, al |-> 0, st |-> 0, cap |-> 0, d |-> 1000, hd |-> 1, mn |-> 1000, mx |-> 2000, md |-> 0],
+  [n |-> "scheduler.quantum_ms", k |-> "int", sec |-> 35, hl |-> 1, lv |-> 1000, lx |-> 0, hh |-> 0, hv |-> 0, hx |-> 0, nul |-> 0, soft |-> 0, ne |-> 0, hm |-> 1, al |-> 0, st |-> 0, cap |-> 0, d |-> 20000, hd |-> 1, mn |-> 1000, mx |-> 200000, md |-> 20000],
+  [n |-> "scheduler.budgets.t1_pops", k |-> "int", sec |-> 36, hl |-> 1, lv |-> 0, lx |-> 0, hh |-> 0, hv |-> 0, hx |-> 0, nul |-> 1, soft |-> 0, ne |-> 0, hm |-> 1, al |-> 0, st |-> 0, cap |-> 0, d |-> 0, hd |-> 0, mn |-> 0, mx |-> 1000000, md |-> 10000],
+  [n |-> "scheduler.budgets.t1_iters", k |-> "int", sec |-> 36, hl |-> 1, lv |-> 0, lx |-> 0, hh |-> 0, hv |-> 0, hx |-> 0, nul |-> 1, soft |-> 0, ne |-> 0, hm |-> 1, al |-> 0, st |-> 0, cap |-> 0, d |-> 50000, hd |-> 1, mn |-> 0, mx |-> 1000000, md |-> 50000],
+  [n |-> "scheduler.budgets.t2_k", k |-> "int", sec |-> 36, hl |-> 1, lv |-> 0, lx |-> 0, hh |-> 0, hv |-> 0, hx |-> 0, nul |-> 1, soft |-> 0, ne |-> 0, hm |-> 1, al |-> 0, st |-> 0, cap |-> 0, d |-> 64000, hd |-> 1, mn |-> 0, mx |-> 1000000, md |-> 64000],
+  [n |-> "scheduler.budgets.t3_ops", k |-> "int", sec |-> 36, hl |-> 1, lv |-> 0, lx |-> 0, hh |-> 0, hv |-> 0, hx |-> 0, nul |-> 1, soft |-> 0, ne |-> 0, hm |-> 1, al |-> 0, st |-> 0, cap |-> 0, d |-> 3000, hd |-> 1, mn |-> 0, mx |-> 1000000, md |-> 3000],
+  [n |-> "scheduler.budgets.time_ms_reflection", k |-> "int", sec |-> 36, hl |-> 1, lv |-> 1000, lx |-> 0, hh |-> 0, hv |-> 0, hx |-> 0, nul |-> 1, soft |-> 0, ne |-> 0, hm |-> 1, al |-> 0, st |-> 0, cap |-> 0, d |-> 6000000, hd |-> 1, mn |-> 1000, mx |-> 100000000, md |-> 6000000],
+  [n |-> "scheduler.budgets.ops_reflection", k |-> "int", sec |-> 36, hl |-> 1, lv |-> 0, lx |-> 0, hh |-> 0, hv |-> 0, hx |-> 0, nul |-> 1, soft |-> 0, ne |-> 0, hm |-> 1, al |-> 0, st |-> 0, cap |-> 0, d |-> 5000, hd |-> 1, mn |-> 0, mx |-> 1000000, md |-> 5000],
+  [n |-> "scheduler.budgets.wall_ms", k |-> "int", sec |-> 36, hl |-> 1, lv |-> 1000, lx |-> 0, hh |-> 0, hv |-> 0, hx |-> 0, nul |-> 1, soft |-> 0, ne |-> 0, hm |-> 1, al |-> 0, st |-> 0, cap |-> 0, d |-> 200000, hd |-> 1, mn |-> 200000, mx |-> 100000000, md |-> 400000],
+  [n |-> "scheduler.fairness.max_consecutive_turns", k |-> "int", sec |-> 37, hl |-> 1, lv |-> 1000, lx |-> 0, hh |-> 0, hv |-> 0, hx |-> 0, nul |-> 0, soft |-> 0, ne |-> 0, hm |-> 1, al |-> 0, st |-> 0, cap |-> 0, d |-> 1000, hd |-> 1, mn |-> 1000, mx |-> 64000, md |-> 2000],
+  [n |-> "scheduler.fairness.aging_ms", k |-> "int", sec |-> 37, hl |-> 1, lv |-> 0, lx |-> 0, hh |-> 0, hv |-> 0, hx |-> 0, nul |-> 0, soft |-> 0, ne |-> 0, hm |-> 1, al |-> 0, st |-> 0, cap |-> 0, d |-> 200000, hd |-> 1, mn |-> 0, mx |-> 1000000, md |-> 200000],
+  [n |-> "perf.enabled", k |-> "bool", sec |-> 38, hl |-> 0, lv |-> 0, lx |-> 0, hh |-> 0, hv |-> 0, hx |-> 0, nul |-> 0, soft |-> 0, ne |-> 0, hm |-> 0, al |-> 0, st |-> 0, cap |-> 0, d |-> 0, hd |-> 1, mn |-> 0, mx |-> 1000, md |-> 0],
+  [n |-> "perf.t1.queue_cap", k |-> "int", sec |-> 39, hl |-> 1, lv |-> 1000, lx |-> 0, hh |-> 0, hv |-> 0, hx |-> 0, nul |-> 0, soft |-> 0, ne |-> 0, hm |-> 1, al |-> 0, st |-> 0, cap |-> 0, d |-> 0, hd |-> 0, mn |-> 1000, mx |-> 100000000, md |-> 10000000],
+  [n |-> "perf.t1.dedupe_window", k |-> "int", sec |-> 39, hl |-> 1, lv |-> 1000, lx |-> 0, hh |-> 0, hv |-> 0, hx |-> 0, nul |-> 0, soft |-> 0, ne |-> 0, hm |-> 1, al |-> 0, st |-> 0, cap |-> 0, d |-> 0, hd |-> 0, mn |-> 1000, mx |-> 100000000, md |-> 8192000],
+  [n |-> "perf.t1.cache.max_entries", k |-> "int", sec |-> 40, hl |-> 1, lv |-> 0, lx |-> 0, hh |-> 0, hv |-> 0, hx |-> 0, nul |-> 0, soft |-> 0, ne |-> 0, hm |-> 1, al |-> 0, st |-> 0, cap |-> 0, d |-> 0, hd |-> 0, mn |-> 0, mx |-> 1000000, md |-> 512000],
+  [n |-> "perf.t1.cache.max_bytes", k |-> "int", sec |-> 40, hl |-> 1, lv |-> 0, lx |-> 0, hh |-> 0, hv |-> 0, hx |-> 0, nul |-> 0, soft |-> 0, ne |-> 0, hm |-> 1, al |-> 0, st |-> 0, cap |-> 0, d |-> 0, hd |-> 0, mn |-> 0, mx |-> 1000000000, md |-> 64000000],
+  [n |-> "perf.t1.caps.frontier", k |-> "int", sec |-> 41, hl |-> 1, lv |-> 1000, lx |-> 0, hh |-> 0, hv |-> 0, hx |-> 0, nul |-> 0, soft |-> 0, ne |-> 0, hm |-> 1, al |-> 0, st |-> 0, cap |-> 0, d |-> 0, hd |-> 0, mn |-> 1000, mx |-> 100000000, md |-> 100000],
+  [n |-> "perf.t1.caps.visited", k |-> "int", sec |-> 41, hl |-> 1, lv |-> 1000, lx |-> 0, hh |-> 0, hv |-> 0, hx |-> 0, nul |-> 0, soft |-> 0, ne |-> 0, hm |-> 1, al |-> 0, st |-> 0, cap |-> 0, d |-> 0, hd |-> 0, mn |-> 1000, mx |-> 100000000, md |-> 100000],
+  [n |-> "perf.t2.embed_dtype", k |-> "enum", sec |-> 42, hl |-> 0, lv |-> 0, lx |-> 0, hh |-> 0, hv |-> 0, hx |-> 0, nul |-> 0, soft |-> 0, ne |-> 0, hm |-> 0, al |-> 0, st |-> 0, cap |-> 0, d |-> 0, hd |-> 0, mn |-> 1000, mx |-> 2000, md |-> 0],
+  [n |-> "perf.t2.embed_store_dtype", k |-> "enum", sec |-> 42, hl |-> 0, lv |-> 0, lx |-> 0, hh |-> 0, hv |-> 0, hx |-> 0, nul |-> 0, soft |-> 0, ne |-> 0, hm |-> 0, al |-> 0, st |-> 0, cap |-> 0, d |-> 0, hd |-> 0, mn |-> 1000, mx |-> 2000, md |-> 0],
+  [n |-> "perf.t2.precompute_norms", k |-> "bool", sec |-> 42, hl |-> 0, lv |-> 0, lx |-> 0, hh |-> 0, hv |-> 0, hx |-> 0, nul |-> 0, soft |-> 0, ne |-> 0, hm |-> 0, al |-> 0, st |-> 0, cap |-> 0, d |-> 0, hd |-> 0, mn |-> 0, mx |-> 1000, md |-> 0],
+  [n |-> "perf.t2.cache.max_entries", k |-> "int", sec |-> 43, hl |-> 1, lv |-> 0, lx |-> 0, hh |-> 0, hv |-> 0, hx |-> 0, nul |-> 0, soft |-> 0, ne |-> 0, hm |-> 1, al |-> 0, st |-> 0, cap |-> 0, d |-> 0, hd |-> 0, mn |-> 0, mx |-> 1000000, md |-> 512000],
+  [n |-> "perf.t2.cache.max_bytes", k |-> "int", sec |-> 43, hl |-> 1, lv |-> 0, lx |-> 0, hh |-> 0, hv |-> 0, hx |-> 0, nul |-> 0, soft |-> 0, ne |-> 0, hm |-> 1, al |-> 0, st |-> 0, cap |-> 0, d |-> 0, hd |-> 0, mn |-> 0, mx |-> 1000000000, md |-> 128000000],
+  [n |-> "perf.t2.reader.partitions.enabled", k |-> "bool", sec |-> 45, hl |-> 0, lv |-> 0, lx |-> 0, hh |-> 0, hv |-> 0, hx |-> 0, nul |-> 0, soft |-> 0, ne |-> 0, hm |-> 0, al |-> 0, st |-> 0, cap |-> 0, d |-> 0, hd |-> 0, mn |-> 0, mx |-> 1000, md |-> 0],
+  [n |-> "perf.t2.reader.partitions.layout", k |-> "enum", sec |-> 45, hl |-> 0, lv |-> 0, lx |-> 0, hh |-> 0, hv |-> 0, hx |-> 0, nul |-> 0, soft |-> 0, ne |-> 0, hm |-> 0, al |-> 0, st |-> 0, cap |-> 0, d |-> 0, hd |-> 0, mn |-> 1000, mx |-> 2000, md |-> 0],
+  [n |-> "perf.t2.reader.partitions.path", k |-> "str", sec |-> 45, hl |-> 0, lv |-> 0, lx |-> 0, hh |-> 0, hv |-> 0, hx |-> 0, nul |-> 0, soft |-> 0, ne |-> 1, hm |-> 1, al |-> 0, st |-> 0, cap |-> 0, d |-> 0, hd |-> 0, mn |-> 1000, mx |-> 1000, md |-> 1000],
+  [n |-> "perf.t2.reader.partitions.by", k |-> "list", sec |-> 45, hl |-> 0, lv |-> 0, lx |-> 0, hh |-> 1, hv |-> 0, hx |-> 0, nul |-> 0, soft |-> 0, ne |-> 1, hm |-> 1, al |-> 0, st |-> 0, cap |-> 0, d |-> 0, hd |-> 0, mn |-> 1000, mx |-> 1000, md |-> 1000],
+  [n |-> "perf.snapshots.compression", k |-> "enum", sec |-> 46, hl |-> 0, lv |-> 0, lx |-> 0, hh |-> 0, hv |-> 0, hx |-> 0, nul |-> 0, soft |-> 0, ne |-> 0, hm |-> 0, al |-> 0, st |-> 0, cap |-> 0, d |-> 0, hd |-> 0, mn |-> 1000, mx |-> 2000, md |-> 0],
+  [n |-> "perf.snapshots.level", k |-> "int", sec |-> 46, hl |-> 1, lv |-> 1000, lx |-> 0, hh |-> 1, hv |-> 19000, hx |-> 0, nul |-> 0, soft |-> 0, ne |-> 0, hm |-> 1, al |-> 0, st |-> 0, cap |-> 0, d |-> 0, hd |-> 0, mn |-> 1000, mx |-> 19000, md |-> 3000],
+  [n |-> "perf.snapshots.delta_mode", k |-> "bool", sec |-> 46, hl |-> 0, lv |-> 0, lx |-> 0, hh |-> 0, hv |-> 0, hx |-> 0, nul |-> 0, soft |-> 0, ne |-> 0, hm |-> 0, al |-> 0, st |-> 0, cap |-> 0, d |-> 0, hd |-> 0, mn |-> 0, mx |-> 1000, md |-> 0],
+  [n |-> "perf.snapshots.every_n_turns", k |-> "int", sec |-> 46, hl |-> 1, lv |-> 1000, lx |-> 0, hh |-> 0, hv |-> 0, hx |-> 0, nul |-> 0, soft |-> 0, ne |-> 0, hm |-> 1, al |-> 0, st |-> 0, cap |-> 0, d |-> 0, hd |-> 0, mn |-> 1000, mx |-> 64000, md |-> 2000],
+  [n |-> "perf.metrics.report_memory", k |-> "bool", sec |-> 47, hl |-> 0, lv |-> 0, lx |-> 0, hh |-> 0, hv |-> 0, hx |-> 0, nul |-> 0, soft |-> 0, ne |-> 0, hm |-> 0, al |-> 0, st |-> 0, cap |-> 0, d |-> 0, hd |-> 1, mn |-> 0, mx |-> 1000, md |-> 0],
+  [n |-> "perf.parallel.enabled", k |-> "bool", sec |-> 48, hl |-> 0, lv |-> 0, lx |-> 0, hh |-> 0, hv |-> 0, hx |-> 0, nul |-> 0, soft |-> 0, ne |-> 0, hm |-> 0, al |-> 0, st |-> 0, cap |-> 0, d |-> 0, hd |-> 1, mn |-> 0, mx |-> 1000, md |-> 0],
+  [n |-> "perf.parallel.max_workers", k |-> "int", sec |-> 48, hl |-> 0, lv |-> 0, lx |-> 0, hh |-> 0, hv |-> 0, hx |-> 0, nul |-> 0, soft |-> 0, ne |-> 0, hm |-> 1, al |-> 0, st |-> 0, cap |-> 0, d |-> 0, hd |-> 1, mn |-> -3000, mx |-> 4000, md |-> 1000],
+  [n |-> "perf.parallel.t1", k |-> "bool", sec |-> 48, hl |-> 0, lv |-> 0, lx |-> 0, hh |-> 0, hv |-> 0, hx |-> 0, nul |-> 0, soft |-> 0, ne |-> 0, hm |-> 0, al |-> 0, st |-> 0, cap |-> 0, d |-> 0, hd |-> 0, mn |-> 0, mx |-> 1000, md |-> 0],
+  [n |-> "perf.parallel.t2", k |-> "bool", sec |-> 48, hl |-> 0, lv |-> 0, lx |-> 0, hh |-> 0, hv |-> 0, hx |-> 0, nul |-> 0, soft |-> 0, ne |-> 0, hm |-> 0, al |-> 0, st |-> 0, cap |-> 0, d |-> 0, hd |-> 0, mn |-> 0, mx |-> 1000, md |-> 0],
+  [n |-> "perf.parallel.agents", k |-> "bool", sec |-> 48, hl |-> 0, lv |-> 0, lx |-> 0, hh |-> 0, hv |-> 0, hx |-> 0, nul |-> 0, soft |-> 0, ne |-> 0, hm |-> 0, al |-> 0, st |-> 0, cap |-> 0, d |-> 0, hd |-> 0, mn |-> 0, mx |-> 1000, md |-> 0]
 >>
 
 ST == <<
   [n |-> "", parent |-> 0, free |-> 0, ndrej |-> 0],
-  [n |-> "t1", parent |-> 1, free |-> 0, ndrej |-> 0],
+  [n |-> "t1", parent |-> 1, free |-> 0, ndrej |-> 1],
   [n |-> "t1.cache", parent |-> 2, free |-> 0, ndrej |-> 0],
-  [n |-> "t1.decay", parent |-> 2, free |-> 1, ndrej |-> 0],
-  [n |-> "t1.edge_type_mult", parent |-> 2, free |-> 1, ndrej |-> 0],
-  [n |-> "t2", parent |-> 1, free |-> 0, ndrej |-> 0],
+  [n |-> "t1.decay", parent |-> 2, free |-> 0, ndrej |-> 1],
+  [n |-> "t1.edge_type_mult", parent |-> 2, free |-> 2, ndrej |-> 1],
+  [n |-> "t2", parent |-> 1, free |-> 0, ndrej |-> 1],
   [n |-> "t2.cache", parent |-> 6, free |-> 0, ndrej |-> 0],
   [n |-> "t2.ranking", parent |-> 6, free |-> 0, ndrej |-> 0],
   [n |-> "t2.hybrid", parent |-> 6, free |-> 0, ndrej |-> 0],
   [n |-> "t2.reader", parent |-> 6, free |-> 0, ndrej |-> 0],
   [n |-> "t2.lancedb", parent |-> 6, free |-> 1, ndrej |-> 1],
   [n |-> "t2.lancedb.partitions", parent |-> 11, free |-> 1, ndrej |-> 1],
-  [n |-> "t2.quality", parent |-> 6, free |-> 0, ndrej |-> 0],
+  [n |-> "t2.quality", parent |-> 6, free |-> 0, ndrej |-> 1],
   [n |-> "t2.quality.normalizer", parent |-> 13, free |-> 0, ndrej |-> 0],
   [n |-> "t2.quality.aliasing", parent |-> 13, free |-> 0, ndrej |-> 0],
   [n |-> "t2.quality.lexical", parent |-> 13, free |-> 0, ndrej |-> 0],
   [n |-> "t2.quality.lexical.bm25", parent |-> 16, free |-> 0, ndrej |-> 0],
   [n |-> "t2.quality.fusion", parent |-> 13, free |-> 0, ndrej |-> 0],
   [n |-> "t2.quality.mmr", parent |-> 13, free |-> 0, ndrej |-> 0],
-  [n |-> "t3", parent |-> 1, free |-> 0, ndrej |-> 0],
+  [n |-> "t3", parent |-> 1, free |-> 0, ndrej |-> 1],
   [n |-> "t3.dialogue", parent |-> 20, free |-> 0, ndrej |-> 0],
   [n |-> "t3.policy", parent |-> 20, free |-> 0, ndrej |-> 0],
   [n |-> "t3.reflection", parent |-> 20, free |-> 0, ndrej |-> 0],
   [n |-> "t3.llm", parent |-> 20, free |-> 0, ndrej |-> 0],
   [n |-> "t3.llm.fixtures", parent |-> 24, free |-> 0, ndrej |-> 0],
-  [n |-> "t4", parent |-> 1, free |-> 0, ndrej |-> 0],
+  [n |-> "t4", parent |-> 1, free |-> 0, ndrej |-> 1],
   [n |-> "t4.cache", parent |-> 26, free |-> 0, ndrej |-> 0],
   [n |-> "t4.cooldowns", parent |-> 26, free |-> 2, ndrej |-> 0],
-  [n |-> "graph", parent |-> 1, free |-> 0, ndrej |-> 0],
+  [n |-> "graph", parent |-> 1, free |-> 0, ndrej |-> 1],
   [n |-> "graph.update", parent |-> 29, free |-> 0, ndrej |-> 0],
   [n |-> "graph.decay", parent |-> 29, free |-> 0, ndrej |-> 0],
   [n |-> "graph.merge", parent |-> 29, free |-> 0, ndrej |-> 0],
   [n |-> "graph.split", parent |-> 29, free |-> 0, ndrej |-> 0],
   [n |-> "graph.promotion", parent |-> 29, free |-> 0, ndrej |-> 0],
-  [n |-> "scheduler", parent |-> 1, free |-> 1, ndrej |-> 0],
+  [n |-> "scheduler", parent |-> 1, free |-> 1, ndrej |-> 1],
   [n |-> "scheduler.budgets", parent |-> 35, free |-> 1, ndrej |-> 0],
   [n |-> "scheduler.fairness", parent |-> 35, free |-> 1, ndrej |-> 0],
-  [n |-> "perf", parent |-> 1, free |-> 0, ndrej |-> 0],
+  [n |-> "perf", parent |-> 1, free |-> 0, ndrej |-> 1],
   [n |-> "perf.t1", parent |-> 38, free |-> 0, ndrej |-> 0],
   [n |-> "perf.t1.cache", parent |-> 39, free |-> 0, ndrej |-> 0],
   [n |-> "perf.t1.caps", parent |-> 39, free |-> 0, ndrej |-> 0],
@@ -301,13 +307,14 @@ Leaf(i, c) ==
        [] c = 6 -> IF num /\ f.hh = 1 THEN inv
                    ELSE IF f.k = "enum" THEN inv
                    ELSE IF f.k = "list" /\ f.hh = 1 THEN inv ELSE 3
-       [] c = 7 -> IF txt THEN inv ELSE 2
-       [] c = 8 -> IF txt THEN inv ELSE IF f.k = "float" /\ (f.hl = 1 \/ f.hh = 1) THEN inv ELSE 2
-       [] c = 9 -> IF txt THEN inv ELSE IF f.k = "float" /\ f.hh = 1 THEN inv ELSE 2
-       [] c = 10 -> IF txt THEN inv ELSE IF f.k = "float" /\ f.hl = 1 THEN inv ELSE 2
-       [] c = 11 -> IF txt THEN inv ELSE IF num \/ f.k = "map" THEN (IF f.hh = 1 THEN inv ELSE IF f.soft = 1 THEN 2 ELSE 1)
+       \* st = 1: the type is checked, nothing is coerced; a float that survives normalisation must be finite
+       \* ("<path> must be a finite number"); other int/bool/map values are coerced first (unspecified outcome)
+       [] c = 7 -> IF txt \/ f.st = 1 THEN inv ELSE 2
+       [] c \in {8, 9, 10} -> IF txt \/ f.st = 1 \/ f.k = "float" THEN inv ELSE 2
+       [] c = 11 -> IF txt THEN inv
+                    ELSE IF num \/ f.k = "map" THEN (IF f.hh = 1 \/ f.cap = 1 THEN inv ELSE IF f.soft = 1 THEN 2 ELSE 1)
                     ELSE 2
-       [] c = 12 -> IF txt THEN inv ELSE 2
+       [] c = 12 -> IF txt \/ f.st = 1 THEN inv ELSE 2
 
 SLeaf(s, c) ==
   LET t == ST[s]
@@ -358,9 +365,9 @@ NumRule(v, a, b, holds) ==
   ELSE IF holds THEN 1 ELSE 0
 
 \* field indices of the rule operands (rows of FT; the harness cross-checks the names)
-WMIN == 113  WMAX == 114  TAUH == 92  TAUL == 93  WALL == 156  QUANT == 149
-CMIN == 129  CMAX == 130  FLOOR == 132  WEAK == 139  MINAVG == 135
-FXEN == 106  FXPATH == 107  ALLOWR == 88  RBACK == 95
+WMIN == 114  WMAX == 115  TAUH == 93  TAUL == 94  WALL == 157  QUANT == 150
+CMIN == 130  CMAX == 131  FLOOR == 133  WEAK == 140  MINAVG == 136
+FXEN == 107  FXPATH == 108  ALLOWR == 89  RBACK == 96
 RuleNames == <<"t4.weight_min", "t4.weight_max", "t3.policy.tau_high", "t3.policy.tau_low",
                "scheduler.budgets.wall_ms", "scheduler.quantum_ms", "graph.update.clamp_min",
                "graph.update.clamp_max", "graph.decay.floor", "graph.split.weak_edge_thresh",
@@ -386,7 +393,8 @@ Rule(v, r) ==
                      THEN (IF FL(v, FXEN) = 2 THEN 2
                            ELSE IF Val(v, FXEN) = 1000 /\ PathGiven(v) THEN 1 ELSE 0)
                      ELSE 1
-NRules == 8
+    [] r = 9 -> NumRule(v, CMIN, CMAX, Val(v, CMIN) <= 0 /\ Val(v, CMAX) >= 0)       \* clamp_min <= 0 <= clamp_max
+NRules == 9
 
 Eval(v) ==
   LET idx == IF IsCorner(v) THEN {} ELSE 1..Len(v)
